@@ -12,1180 +12,2507 @@ Definition show_fres (r : fres) : string :=
   end.
 Definition check (rs : list rune) : string := digest (show_fres (format_res rs)).
 Definition full (rs : list rune) : string := show_fres (format_res rs).
-Eval vm_compute in ("<<<M1945>>>" ++ check (runes_of_ascii "//x
-  root packet
-// `tick` ""quote"" 'q'
-	  // `tick` ""quote"" 'q'
-	i8i8
-{
-	u128 {
-	repeat lengthOf
-Foo//
-		`u8 x,` 
-,
-	MetaDataX
-falsey
-	`two words` ,Pad { u8
-	a1 @lengthOf( leftPad )
-,
+Eval vm_compute in ("<<<M3589>>>" ++ check (runes_of_ascii "options {
+    LittleEndian = true;
+    StringPrefixLenType = u8;
+    ArrayPrefixLenType = u16;
+    FixedStringPadChar = '0';
+    JavaPackage = ""co\
+m.example.msg"";
+    GoPackage = ""ms\
+g"";
+    GoModule = ""example.com/msg"";
 }
-	,
-int
-
-@calculatedFrom(// " ++ [128512]%N ++ runes_of_ascii " emoji
-""a\\"" ) 
-`
-`
-	,} , Header Logon
-,
-match
-    rootA	// c
-	as BodyLength
-    // " ++ [27880; 37322]%N ++ runes_of_ascii "
-
-{
-	""" ++ [28040; 24687]%N ++ runes_of_ascii """:
-
-    Pad
-
-    [ """ ++ [233]%N ++ runes_of_ascii "t" ++ [233]%N ++ runes_of_ascii """ 
-,
-1
-
-]
-:_x
-,	}
-,
-options1`crlf
-line` 
-,
-    repeat  u {match i8i8
-as falsey
-	{ 	 // `tick` ""quote"" 'q'
-  [42
-	,4294967296
-
-    ]
-
-    :
-    x_y_z
-    ,
-    42
-	: float
-, 
-	// `tick` ""quote"" 'q'
-	// c
-    3
-
-    :
-	packetx
-
-    ,}
-
-, }
-
-,
-    charz	,} 
-// a // b
-root  packet
-float  
-      // @lengthOf(
-      // c
-	{
-    repeat
-
-_x
-body
-
-`say ""hi""` , charz 
-`// not a comment`
-
-    ,
-
-repeat	lengthOf{
-repeatCount
-{repeat 
-tag{zchar[ 42 
-]
-
-// a // b
-	  // " ++ [27880; 37322]%N ++ runes_of_ascii "
-	  leftPad
-    ,repeat
-zchar[0123456789 
-]
-
-    T
-    `crlf
-line`
-,
-    char[] trueish
-	,zchar[
-007// " ++ [128512]%N ++ runes_of_ascii " emoji
-
-] 
-lengthOf 
-@lengthOf(	string_
-
-)`" ++ [233]%N ++ runes_of_ascii "`	,}
-,repeat int32  As, 
-int8
-chars , 
-i32
-    calculatedFrom 
-`it's`
-, } 	 /// triple
-    ,
-	zchar[  00]
-
-chars 
-``
-
-    , }	,	char[ 
-255
-    ]
-	charz 
-@calculatedFrom(
-""1"" 
-) `doc`
-, // packet A { u8 x, }
-    match	body
-as 
-rootA
-{""CRC32""  :
-
-    A
-    ,  [ 
-007
-
-, 
-""{,}""
-,0 // `tick` ""quote"" 'q'
-	,  ""1""  ,
-    0123456789
-
-    ,
-
-""// no comment"" // " ++ [27880; 37322]%N ++ runes_of_ascii "
-,""it's"",
-
-1
-] :	BodyLength
-65535:x_y_z
-[	""`tick`""
-]
-:
-
-a1}
-,
-repeat
-	asx{ char[0123456789
-
-]
-i64_
-    `" ++ [28040; 24687; 31867; 22411]%N ++ runes_of_ascii "`
-
-    , }  ,
-
-@lengthOf(
-
-x_y_z
-	)  pack@calculatedFrom(  """ ++ [233]%N ++ runes_of_ascii "t" ++ [233]%N ++ runes_of_ascii """  ) 
-,
-@tag( 3
-
-// trailing space 
-
-//
-	) repeat  uint64
-	o 
-,// @lengthOf(
-  }
-")).
-Eval vm_compute in ("<<<M378>>>" ++ check (runes_of_ascii "options {
-	StringPrefixLenType = u16;
-	ArrayPrefixLenType = u16;
+MetaData Meta {
+    u32 SeqNum `sequence number`,
+    char[8] Symbol `symbol`,
+    zchar[5] ZSym `z symbol`,
+    string Note,
+    Symbol AltSymbol `alias of symbol`,
+    f64 Price,
 }
-
-packet SampleBinary {
-    uint16 MsgType `" ++ [28040; 24687; 31867; 22411]%N ++ runes_of_ascii "`,
-    u16 BodyLenght @lengthOf(Body) `" ++ [28040; 24687; 20307; 38271; 24230]%N ++ runes_of_ascii "`,
+packet Inner {
+    u8 a,
+    i16 b,
+    string c,
+}
+packet Inner2 {
+    u8 a2,
+    char[3] c2,
+}
+packet Logon {
+    u8 x,
+    string user,
+    repeat u16 codes,
+}
+packet Logout {
+    u16 reason,
+}
+packet Empty {
+}
+root packet Msg {
+    u8 su8,
+    uint8 luint8,
+    u16 su16,
+    uint16 luint16,
+    u32 su32,
+    uint32 luint32,
+    u64 su64,
+    uint64 luint64,
+    i8 si8,
+    int8 lint8,
+    i16 si16,
+    int16 lint16,
+    i32 si32,
+    int32 lint32,
+    i64 si64,
+    int64 lint64,
+    f32 sf32,
+    float32 lfloat32,
+    f64 sf64,
+    float64 lfloat64,
+    char[6] fsplain,
+    @leftPad('0') char[4] fs0,
+    @rightPad('0') char[5] fs1,
+    @leftPad(' ') char[6] fs2,
+    @rightPad(' ') char[7] fs3,
+    @leftPad('\x00') char[8] fs4,
+    @rightPad('\x00') char[9] fs5,
+    @leftPad() char[10] fs6,
+    @rightPad() char[11] fs7,
+    zchar[7] fz,
+    @leftPad('0') zchar[3] fzl0,
+    string s1 `doc`,
+    char[] s2,
+    Inner,
+    Sub {
+        u8 q,
+        string w,
+        Deep {
+            u16 z,
+            repeat i32 zs,
+        },
+    },
+    repeat u8 ru8,
+    repeat u16 ru16,
+    repeat u32 ru32,
+    repeat u64 ru64,
+    repeat i8 ri8,
+    repeat i16 ri16,
+    repeat i32 ri32,
+    repeat i64 ri64,
+    repeat f32 rf32,
+    repeat f64 rf64,
+    repeat string rstr,
+    repeat char[] rstr2,
+    repeat char[3] rfs,
+    repeat zchar[3] rfz,
+    repeat Inner2,
+    repeat Grp {
+        u8 k,
+        char[2] v,
+    },
+    SeqNum,
+    SeqNum seq2,
+    repeat SeqNum seqs,
+    Symbol,
+    AltSymbol alt,
+    ZSym,
+    Note,
+    repeat Symbol syms,
+    Price px,
+    u16 MsgType,
+    u32 BodyLen @lengthOf(Body),
     match MsgType as Body {
         1 : Logon,
-        2 : Logout,
-        3 : Heartbeat,
-        4 : RiskControlRequest,
-        5 : RiskControlResponse,
+        [2, 3] : Logout,
+        7 : Logon,
+        9 : Empty,
     },
-        @calculatedFrom(""CRC32"")
-    u32 Ckecksum `" ++ [26657; 39564; 21644]%N ++ runes_of_ascii "`,
+    u32 Checksum @calculatedFrom(""CRC32""),
+}
+")).
+Eval vm_compute in ("<<<M4300>>>" ++ check (runes_of_ascii "packet Z9_ {
+    string options1 @calculatedFrom(""// no comment"") `{ , }`,
+    @lengthOf(MetaDataX)
+    @tag(1)
+    /// triple
+    @calculatedFrom(""it's"")
+    repeat packetx,
+    uint8x @lengthOf(i8i8) `say ""hi""`,// " ++ [27880; 37322]%N ++ runes_of_ascii "
+    @leftPad(' ')
+    char[7] MetaDataX,
+    @tag(65535)
+    // @lengthOf(
+    trueish {
+        i8i8 repeatCount,
+    },
+    match body as i8i8 {
+        255 : f32a,
+        ""a\""b"" : int,
+        [""CRC32""] : metadata,
+    },
+    @lengthOf(pack)
+    repeat body {
+        Foo {
+            repeat zchar[65535] string_,
+            zchar len `100% of %d`,
+        },
+        string Z9_,
+        match Packet as trueish {
+            """ ++ [233]%N ++ runes_of_ascii "t" ++ [233]%N ++ runes_of_ascii """ : pack,
+            4294967296 : asx,
+        },
+    },
+    @calculatedFrom(""\n"")
+    //
+    // " ++ [27880; 37322]%N ++ runes_of_ascii "
+    @tag(0)
+    repeat Header {
+        Pad {
+            pack {
+                repeat u16 tag,
+                match calculatedFrom as trueish {
+                    ""abc"" : metadata,
+                    [""it's"", 255] : matchKey,
+                    4294967296 : x_y_z,
+                    [""`tick`""] : asx,
+                },
+            },//	t
+            char[255] pack,// " ++ [128512]%N ++ runes_of_ascii " emoji
+            uint32 BodyLength,
+        },
+        float,
+    },
+    @calculatedFrom(""a\\"")
+    //	t
+    @tag(10)
+    // a // b
+    match falsey as pack {
+        // a // b
+        /// triple
+        7 : x_y_z,
+        [""a	b"", ""packet""] : x_y_z,
+    },
+    lengthOf {
+        int8 uint8x,
+    },
+}// " ++ [27880; 37322]%N ++ runes_of_ascii "
+
+packet A {
+}
+
+packet A {
+    // 50% %s
+    @leftPad(' ')
+    @calculatedFrom(""" ++ [233]%N ++ runes_of_ascii "t" ++ [233]%N ++ runes_of_ascii """)
+    MetaDataX @lengthOf(calculatedFrom) `crlf
+        line`,//	t
+}
+
+packet x_y_z {
+    @rightPad(' ')
+    @lengthOf(leftPad)
+    @lengthOf(Header)
+    char[0123456789] metadata,
+}
+
+packet options1 {
+}")).
+Eval vm_compute in ("<<<M1172>>>" ++ check (runes_of_ascii "packet
+roots{ } packet // trailing space 
+i64_
+{  match u
+    as len { 4294967296 // trailing space 
+:options1 ,// @lengthOf(
+""\" ++ [233]%N ++ runes_of_ascii """
+:	o
+    , """" //x
+: matchKey
+,[ 255	,	0 , 007 , ""1"" , ""a\\""
+, ""packet""
+,
+""a	b"" ] //
+:
+// " ++ [128512]%N ++ runes_of_ascii " emoji
+// " ++ [27880; 37322]%N ++ runes_of_ascii "
+As ,00 :charz ""it's"" // c
+:	int
+    ,
+    }
+, packetx { int32
+calculatedFrom
+    @lengthOf(body ) , }  ,uint32 calculatedFrom @lengthOf( float ) `" ++ [233]%N ++ runes_of_ascii "`	, @tag( 00  ) match // `tick` ""quote"" 'q'
+f32a
+    // @lengthOf(
+    as tag{""" ++ [28040; 24687]%N ++ runes_of_ascii """: pack
+,} , @calculatedFrom( ""\n""  ) matchKey matchKey
+, i64
+tag,f32 Header @lengthOf( string_ ) , @calculatedFrom(
+// @lengthOf(
+// trailing space 
+""x y"" )match As as //x
+len{	""`tick`"" :
+BodyLength 4294967296 : repeatCount
+, } , u8 o, @leftPad
+( ' ' ) repeat	charz { repeat	zchar[ // c
+3
+    ] rootA
+,/// triple
+u @lengthOf( charz ) , } /// triple
+,}options {
+string_ =	""" ++ [28040; 24687]%N ++ runes_of_ascii """
+    ;a1 =' ' ; charz = 4294967296 msg_type= string
+; } packet tag
+    {
+float32 calculatedFrom
+    // @lengthOf(
+    `line1
+line2`
+    ,	} packet i8i8 { @lengthOf(
+// packet A { u8 x, }
+//
+len
+) BodyLength Logon ,
+f64 uint8x`tab	here` , // a // b
+roots zchar ,
+@lengthOf( stringy ) u128 i8i8
+,
+@tag( 4294967296	)@calculatedFrom( ""packet"" ) @lengthOf(
+u8x
+)
+Header@lengthOf(
+    //x
+    asx
+    ) `// not a comment` , @leftPad ( ) repeat a1 // " ++ [27880; 37322]%N ++ runes_of_ascii "
+{
+    u64
+    //	t
+    metadata @lengthOf(
+packetx // a // b
+) , match trueish
+as
+    Foo {""a\""b"": Logon  , 10 : // " ++ [27880; 37322]%N ++ runes_of_ascii "
+trueish,	}, // a // b
+zchar[ 7
+] stringy
+`say ""hi""` , }
+, }
+
+")).
+Eval vm_compute in ("<<<M1232>>>" ++ check (runes_of_ascii "options { lengthOf  =
+    ""// no comment"" ;
+    // `tick` ""quote"" 'q'
+    x_y_z =
+    true
+x_y_z= // " ++ [128512]%N ++ runes_of_ascii " emoji
+255
+; metadata= // c
+""CRC32"" ; leftPad=	""{,}""// trailing space 
+;} packet tag
+// @lengthOf(
+//x
+{ } packet
+// trailing space 
+// a // b
+Z9_	{
+string
+packetx // a // b
+`" ++ [233]%N ++ runes_of_ascii "` ,
+    //
+    repeat uint64
+    // trailing space 
+    roots ,	match calculatedFrom as charz  { 3
+:	As
+    ,	""a	b"":
+//x
+// 50% %s
+zchar,// packet A { u8 x, }
+4294967296:T 4294967296 :
+    // `tick` ""quote"" 'q'
+    Z9_ , ""\n"" :
+rootA ,}, len,i8i8 i64_ , }packet
+MetaDataX { @tag( 10 ) zchar[ 3 ]// 50% %s
+As , @calculatedFrom(
+    ""x y""
+)
+zchar[
+65535	] metadata@calculatedFrom(//x
+""`tick`""  ) , Z9_ { float32 u128 @calculatedFrom( // a // b
+""\n""	)
+,
+match o as
+    float
+{ // " ++ [27880; 37322]%N ++ runes_of_ascii "
+007
+: float , }  ,  }
+,
+repeat i8 matchKey ,@leftPad('\x00'
+) @tag( 3 )
+@tag( 10 )
+match// 50% %s
+u128 as
+calculatedFrom {
+    4294967296
+:falsey
+,	}	,	a1
+@calculatedFrom( ""a	b"" ) `` ,char[
+    65535
+    //x
+    ]
+    u @calculatedFrom( ""x y"" ) , } packet
+    _x
+    {// " ++ [128512]%N ++ runes_of_ascii " emoji
+@calculatedFrom(""a	b"")  @calculatedFrom(/// triple
+""it's""
+)
+repeat x_y_z metadata ,
+i64 u `u8 x,` , @lengthOf( len )repeat char[] matchKey ,msg_type  { tag @calculatedFrom( """ ++ [128512]%N ++ runes_of_ascii """ ) `a\` ,
+//	t
+//
+zchar @calculatedFrom( ""\n"")
+, }, leftPad@lengthOf(	charz )
+,
+    }")).
+Eval vm_compute in ("<<<M275>>>" ++ check (runes_of_ascii "root packet u{ @tag( 42 )
+    // a // b
+    @leftPad
+    ('0' ) @rightPad ( '0'
+// trailing space 
+// " ++ [128512]%N ++ runes_of_ascii " emoji
+) u8x chars`{ , }` ,int8 leftPad @lengthOf(
+options1) `two words` ,@rightPad (
+    ' ') tag
+    @lengthOf( uint8x  )
+`" ++ [233]%N ++ runes_of_ascii "` , uint16 chars
+, float64 crc ,@leftPad ( '\x00' )// @lengthOf(
+char[]
+    roots@calculatedFrom(""\" ++ [233]%N ++ runes_of_ascii """ )
+, stringy , char[42
+    ] falsey @calculatedFrom( // a // b
+""a	b"" )`" ++ [28040; 24687; 31867; 22411]%N ++ runes_of_ascii "`,@rightPad ( )  @tag(	7
+    ) @calculatedFrom(""// no comment""	)
+    // trailing space 
+    match calculatedFrom as
+    asx{ ""a\""b""
+    // packet A { u8 x, }
+    : tag , 0123456789 : // " ++ [27880; 37322]%N ++ runes_of_ascii "
+zchar ,
+[255 ,""" ++ [233]%N ++ runes_of_ascii "t" ++ [233]%N ++ runes_of_ascii """ , 0123456789 ,
+    ""// no comment"" // packet A { u8 x, }
+, 7,
+""""  ] : pack ,
+1
+    //
+    :	stringy [""x y"" ,
+    ""`tick`""  , 0123456789
+    ,""x y""
+    /// triple
+    , ""{,}""
+    ] :
+len , [
+""a\""b"" // `tick` ""quote"" 'q'
+, ""a	b"" , ""// no comment"" , 4294967296 ] :
+    trueish,	} //x
+, repeat//	t
+BodyLength	{ /// triple
+u8x // @lengthOf(
+Header `100% of %d`  ,	int64 u@calculatedFrom( ""CRC32"" )  `" ++ [28040; 24687; 31867; 22411]%N ++ runes_of_ascii "`, char[] zchar @calculatedFrom( ""a\""b"")
+    `
+`
+, f32a
+    //
+    {repeat
+// `tick` ""quote"" 'q'
+// " ++ [27880; 37322]%N ++ runes_of_ascii "
+zchar[ 0123456789
+]  stringy
+    , } , }
+    /// triple
+    , } // trailing space ")).
+Eval vm_compute in ("<<<M493>>>" ++ check (runes_of_ascii "
+packet	chars { zchar[ 1 ]u8x
+// a // b
+// @lengthOf(
+@lengthOf( uint8x
+    ) ,@calculatedFrom(""{,}"" ) roots `say ""hi""` ,
+int8
+// a // b
+//	t
+asx `{ , }` ,
+// `tick` ""quote"" 'q'
+// trailing space 
+@calculatedFrom(  ""a\""b"" )
+    //x
+    i8 _x`// not a comment` ,
+}root
+    // " ++ [27880; 37322]%N ++ runes_of_ascii "
+    packet metadata{ //x
+zchar[ 3 ]	u128 @calculatedFrom(""a\""b"" ) /// triple
+`two words`  , @rightPad ( ' ') @calculatedFrom(
+""// no comment""
+    ) @lengthOf( Logon ) char[] Packet
+,	@rightPad ( '0') trueish
+matchKey
+`line1
+line2` , @tag(
+    65535 )@lengthOf( f32a )
+@tag(
+//
+// trailing space 
+0123456789) match
+zchar as falsey  { 10 : len [
+""" ++ [128512]%N ++ runes_of_ascii """, ""a	b""
+    , ""CRC32"" ,""x y"" ,
+    // 50% %s
+    3
+    ,
+7, ""\" ++ [233]%N ++ runes_of_ascii """ , 7 ]
+    :
+options1
+    , ""\n"" : Packet , 0: float , """ ++ [28040; 24687]%N ++ runes_of_ascii """
+://x
+zchar , 4294967296 :Packet,
+}  , zchar[ 0123456789] lengthOf
+    ,
+    zchar
+    {
+zchar[0//x
+]Z9_ // `tick` ""quote"" 'q'
+,
+} , float `it's` ,
+repeat
+    Z9_ { repeat  options1	,i32
+As ,
+    // @lengthOf(
+    string
+stringy @lengthOf(
+    leftPad )
+`{ , }`
+,
+    //
+    } , char[ 10 ] x , } root packet As {
+@tag( 00
+) // `tick` ""quote"" 'q'
+repeat
+string i64_ , } // " ++ [27880; 37322]%N)).
+Eval vm_compute in ("<<<M1249>>>" ++ check (runes_of_ascii "packet pack {@lengthOf(
+BodyLength )char[] metadata
+    `tab	here` ,@tag( 007	)
+string
+    body @calculatedFrom( ""x y"")
+    `line1
+line2`	, zchar// @lengthOf(
+`crlf
+line` ,repeat
+_x
+    Packet  , u32 zchar@calculatedFrom(
+    """ ++ [233]%N ++ runes_of_ascii "t" ++ [233]%N ++ runes_of_ascii """  ) , // " ++ [128512]%N ++ runes_of_ascii " emoji
+@lengthOf(msg_type
+    ) repeat string //
+f32a `u8 x,`
+    ,u , i64 x_y_z`crlf
+line`
+    , @lengthOf( x_y_z )
+    @tag(
+    7 ) @lengthOf( roots ) repeat tag {
+match i8i8 as packetx //
+{[ ""// no comment"" ]
+    :
+    packetx // @lengthOf(
+,""\" ++ [233]%N ++ runes_of_ascii """ : i8i8, ""a\\""
+: Packet // " ++ [128512]%N ++ runes_of_ascii " emoji
+,// 50% %s
+00
+: a1 ,	""1""	: Foo
+,
+    ""\" ++ [233]%N ++ runes_of_ascii """ :rootA
+,
+    } ,uint8x
+// a // b
+/// triple
+matchKey`" ++ [28040; 24687; 31867; 22411]%N ++ runes_of_ascii "` , //x
+char[ // 50% %s
+0123456789
+] i8i8,  }  , @lengthOf(calculatedFrom ) //x
+Foo
+    a1
+    // packet A { u8 x, }
+    ,
+/// triple
+// @lengthOf(
+} MetaData Logon
+    { }
+MetaData
+// a // b
+// packet A { u8 x, }
+u { msg_type	x`line1
+line2` ,//
+o
+    As
+, // " ++ [27880; 37322]%N ++ runes_of_ascii "
+zchar[
+3
+] A `doc`  ,char[ 3	]  a1 ,
+    //x
+    }
+packet trueish { } options { As =  true
+options1 = false T= false int /// triple
+=	'\x00' ; // " ++ [128512]%N ++ runes_of_ascii " emoji
+}
+")).
+Eval vm_compute in ("<<<M3753>>>" ++ check (runes_of_ascii "
+packet Header
+
+{ 
+@lengthOf(
+
+matchKey
+
+)
+
+    @lengthOf(  metadata  )
+
+@tag(4294967296 
+) match f32a
+    as chars
+{ """ ++ [128512]%N ++ runes_of_ascii """ :  int
+,} , 
+match  // @lengthOf(
+	roots	as
+Packet{
+
+    255 
+:
+    x_y_z
+
+    ,	}  , char[]
+	trueish @lengthOf( i64_  ) `line1
+line2` , match
+    f32a	as
+
+x_y_z
+    {
+
+    255:
+	a1
+	7
+
+:string_
+
+// @lengthOf(
+
+	// packet A { u8 x, }
+      ,
+
+}
+,Pad@calculatedFrom(	""" ++ [128512]%N ++ runes_of_ascii """
+)
+	, char[ 
+65535
+	]
+	pack 
+,@lengthOf(
+x )  // " ++ [27880; 37322]%N ++ runes_of_ascii "
+	match
+metadata// " ++ [128512]%N ++ runes_of_ascii " emoji
+		as
+metadata { 
+42	:rootA
+	65535
+
+:packetx
+
+,
+	[
+    7
+	]
+: zchar
+	,
+[
+    ""it's"" 
+,
+
+    ""\n"" ,
+42] :
+
+Logon// a // b
+    	,
+    65535
+: body
+, 	 // trailing space 
+		}
+
+    ,@tag( 
+00 )
+
+@rightPad( 
+'\x00')	float	`two words` , tag
+{
+	match 
+calculatedFrom as
+rootA { [
+	""1""	,
+	""CRC32"" ,1 ,
+
+    00] :_x , 1:
+Z9_
+	, """" :
+    x,  }
+,
+
+    } ,	@calculatedFrom(  """ ++ [128512]%N ++ runes_of_ascii """ ) @lengthOf(
+	lengthOf 
+        // trailing space 
+		// packet A { u8 x, }
+	)@calculatedFrom(
+
+"""" ) repeat  int16
+x,  } ")).
+Eval vm_compute in ("<<<M3865>>>" ++ check (runes_of_ascii "/// triple
+options {
+    /// triple
+    zchar = ""// no comment""
+    //
+    leftPad = char[]
+    // packet A { u8 x, }
+    i8i8 = ' ';
+    T = '0';
 }
 
 packet Logon {
-     @leftPad('0')
-    char[10] UserName `" ++ [29992; 25143; 21517]%N ++ runes_of_ascii "`,
-    string Password `" ++ [23494; 30721]%N ++ runes_of_ascii "`,
-    uint64 ClientId `" ++ [23458; 25143; 31471]%N ++ runes_of_ascii "ID`,
-    u16 HeartbeatInterval `" ++ [24515; 36339; 38388; 38548]%N ++ runes_of_ascii "`,
 }
 
-packet Logout {
-      @rightPad('0')
-    char[10] UserName `" ++ [29992; 25143; 21517]%N ++ runes_of_ascii "`,
-    uint64 ClientId `" ++ [23458; 25143; 31471]%N ++ runes_of_ascii "ID`,
-}
-
-packet Heartbeat {
-}
-
-packet RiskControlRequest {
-    string UniqueOrderId `" ++ [21807; 19968; 35746; 21333; 21495]%N ++ runes_of_ascii "`,
-    char[16] ClOrdID `" ++ [23458; 25143; 35746; 21333; 21495]%N ++ runes_of_ascii "`,
-    char[3] MarketID `" ++ [24066; 22330]%N ++ runes_of_ascii "id`,
-    char[12] SecurityID `" ++ [35777; 21048; 20195; 30721]%N ++ runes_of_ascii "`,
-    char Side `" ++ [20080; 21334; 26041; 21521]%N ++ runes_of_ascii "`,
-    char OrderType `" ++ [35746; 21333; 31867; 22411]%N ++ runes_of_ascii "`,
-    u64 Price `" ++ [20215; 26684]%N ++ runes_of_ascii "`,
-    u32 Qty `" ++ [25968; 37327]%N ++ runes_of_ascii "`,
-    repeat string ExtraInfo `" ++ [38468; 21152; 20449; 24687]%N ++ runes_of_ascii "`,
-    repeat SubOrder {
-    		char[16] ClOrdID `" ++ [23376; 35746; 21333; 21495]%N ++ runes_of_ascii "`,
-    		u64 Price `" ++ [23376; 35746; 21333; 20215; 26684]%N ++ runes_of_ascii "`,
-    		u32 Qty `" ++ [23376; 35746; 21333; 25968; 37327]%N ++ runes_of_ascii "`,
-    	},
-}
-
-packet RiskControlResponse {
-    string UniqueOrderId `" ++ [21807; 19968; 35746; 21333; 21495]%N ++ runes_of_ascii "`,
-    i32 Status `" ++ [29366; 24577]%N ++ runes_of_ascii "`,
-    string Msg `" ++ [32467; 26524; 20449; 24687]%N ++ runes_of_ascii "`,
-    repeat Detail,
-}
-
-packet Detail {
-    string RuleName `" ++ [35268; 21017; 21517; 31216]%N ++ runes_of_ascii "`,
-    u16 Code `" ++ [21407; 22240; 20195; 30721]%N ++ runes_of_ascii "`,
-}")).
-Eval vm_compute in ("<<<M1437>>>" ++ check (runes_of_ascii "options
-	{
-StringPrefixLenType
-=
-
-u8 ; ArrayPrefixLenType = u8
-    ;FixedStringPadFromLeft	=true	; 
-FixedStringPadChar =
-
-    ' '	;
-}packet Logout 
-{repeat
-	string
-Px
-    ,
-	repeat
-
-    string
-seqNo
-    , InMsgkind64	{uint16
-
-OrderId ,
-
-    char[]	count,	repeat
-
-    i32
-
-    venue ,
-},
-}packet
-
-Heartbeat 
-{ float32  tag7
-
-    ,repeat
-InPrice50	{ repeat
-char[
-5
-	]	lastPx
-
-,  InRef42 
-{
-u8
-
-    pad0	,	}
-
-,
-
-uint32
-Acct
-,
-	repeat Logout , repeat char[ 5	] Qty ,}
-,repeat InSeqno30
-
-{ repeat	Logout
-    , 
-}
-,
-	@leftPad(	'0'	)char[
-
-    12
-    ]
-
-Acct  ,char[]Side2
-    ,
-	repeat
-string 
-msgKind  , 
-}
-
-    packet  Ack
-{  Heartbeat
-	,
-char[ 8  ]seqNo
-	,
-float64
-clOrdID
-	,
-
-} 
-packet
-    Trade { char[]
-
-    OrderId
-    ,  f64
-
-    Side2
-
-    , zchar[	8 ]f1  , string Qty
-,float64 seqNo
-,
-    repeat
-Logout
-
-    ,
-
-} packet
-Order
-
-    {
-    f32 
-OrderId
-    ,
-repeat 
-u8 x
-
-    ,
-Ack 
-,zchar[ 
-7
-]
-Note  , }
-	root  packet
-Logon
-
-    {
-@rightPad('\x00' )
-	char[
-9
-
-]
-	f1 , }
-")).
-Eval vm_compute in ("<<<M1972>>>" ++ check (runes_of_ascii "
-// top
-      root 	 // c0
-  packet // c1
-  msg_type  // c2
-  	{ // c3
-    i64  // c4
-
-options1	// c5
-  , // c6
-@lengthOf(// c7
-		f32a  // c8
-  ) // c9
-  repeat // c10
-
-uint16 	 // c11
-	Foo // c12
-	, 	 // c13
-
-  @calculatedFrom( // c14
-	""x y"" // c15
-) // c16
-repeat// c17
-    int64	// c18
-	pack // c19
-    , // c20
-
-	@leftPad  // c21
-    (// c22
-	' ' 	 // c23
-
-  )  // c24
-      uint8  // c25
-
-	Foo	// c26
-	, // c27
-} 	 // c28
-
-packet	// c29
-rootA  // c30
-  	{ // c31
-f32a  // c32
-  	x // c33
-  `two words` 	 // c34
-  ,	// c35
-
-char	// c36
-  asx 	 // c37
-	  @lengthOf( // c38
-falsey// c39
-
-  ) // c40
-    	`u8 x,`// c41
-  ,  // c42
-  @lengthOf(	// c43
-	  i64_// c44
-  ) // c45
-    uint16 	 // c46
-    chars// c47
-    ,	// c48
-
-@tag( // c49
-	0	// c50
-  )  // c51
-string 	 // c52
-	_x // c53
-
-@calculatedFrom(	// c54
-  ""abc""// c55
-	  )// c56
-  `// not a comment` // c57
-	,  // c58
-  	}	// c59")).
-Eval vm_compute in ("<<<M1961>>>" ++ check (runes_of_ascii "packet options1 {
-    @leftPad()
-    @calculatedFrom(""\n"")
-    @leftPad(' ')
-    chars T `say ""hi""`,
-    // @lengthOf(
-    repeat zchar {
-        metadata {
-            // @lengthOf(
-            // c
-            match A as x_y_z {
-                ""1"" : string_,
-                // @lengthOf(
-                [""// no comment"", 10] : Foo,
-                ""a\\"" : Packet,
-                [""a	b"", 65535] : x,
-            },
-        },
-    },
-    @rightPad()
-    f32 msg_type,
-    match f32a as body {
-        [
-            ""`tick`"", ""\n"", ""a	b"", ""{,}"", 255,
-            ""x y"", 3
-        ] : x,
-        ""CRC32"" : zchar,
-        ""x y"" : rootA,
-        // `tick` ""quote"" 'q'
-        [00, ""it's"", 4294967296, ""CRC32""] : roots,
-        4294967296 : Logon,
-    },
-    @leftPad('0')
-    pack `crlf
-    line`,
-}")).
-Eval vm_compute in ("<<<M0>>>" ++ check (runes_of_ascii "packet body{ @tag( 0123456789 )repeatCount { // @lengthOf(
-i32
-roots	@calculatedFrom( ""it's""
-    )
-    // trailing space 
-    ,
-    char[]repeatCount @calculatedFrom(
-""packet"" ) `two words` // " ++ [128512]%N ++ runes_of_ascii " emoji
-,repeat u16 roots , match lengthOf as As //	t
-{ [ ""packet"" ,""" ++ [28040; 24687]%N ++ runes_of_ascii """,	255
-, 42 ,""\" ++ [233]%N ++ runes_of_ascii """ ] : x_y_z ,
-    } , } , trueish ,@tag( 65535 )
-@tag( 255  ) /// triple
-@tag(00) chars @calculatedFrom(""it's"" ) ,	match o as
+packet u128 {
     // `tick` ""quote"" 'q'
-    roots {
-// " ++ [27880; 37322]%N ++ runes_of_ascii "
-// c
-""{,}""
-: options1 , """ ++ [28040; 24687]%N ++ runes_of_ascii """
-    :	lengthOf	, 00: pack  ,[ ""a\""b"" ] :
-    msg_type ,1 : i8i8
-, [ 10  , 3 ,"""" ] : falsey ,} , }
-root packet// `tick` ""quote"" 'q'
-Z9_ {repeat char[] // a // b
-Packet	, string chars@calculatedFrom( ""a\""b"" )
-`// not a comment`
-    // " ++ [128512]%N ++ runes_of_ascii " emoji
-    ,	}
-")).
-Eval vm_compute in ("<<<M1817>>>" ++ check (runes_of_ascii "root packet packetx {
-    match x as repeatCount {
-        65535 : i8i8,
-        10 : x_y_z,
-        42 : packetx,
-        0123456789 : metadata,
-        [""\" ++ [233]%N ++ runes_of_ascii """] : x_y_z,
-        ""a\\"" : i8i8,
+    @rightPad('\x00')
+    Z9_,
+}
+
+packet Packet {
+    uint64 As,
+    matchKey @calculatedFrom(""" ++ [28040; 24687]%N ++ runes_of_ascii """),
+    @tag(0)
+    @lengthOf(Logon)
+    repeat x {
+        repeat char[] leftPad `u8 x,`,
+        match Logon as falsey {
+            0123456789 : calculatedFrom,
+            // trailing space 
+            7 : BodyLength,
+            ""a\\"" : repeatCount,
+            [42] : falsey,
+            """ ++ [128512]%N ++ runes_of_ascii """ : u128,
+            [
+                65535, 3, ""abc"", 007, ""1"",
+                3
+            ] : Packet,
+        },
+        //x
     },
-    stringy {
-        // c
-        stringy i64_,
-        repeat Header As `two words`,
-    },
-    repeat char[007] u8x `line1
-        line2`,
-    @lengthOf(charz)
-    // packet A { u8 x, }
-    @leftPad('0')
-    int16 BodyLength,
-    repeat float32 repeatCount,
-    match trueish as MetaDataX {
-        ""a	b"" : x,
-    },
-    char[0] matchKey @lengthOf(float),
-    @lengthOf(i64_)
-    @lengthOf(repeatCount)
-    // " ++ [27880; 37322]%N ++ runes_of_ascii "
-    @lengthOf(float)
-    f32 Z9_,
+    zchar[4294967296] lengthOf `// not a comment`,
+    @lengthOf(stringy)
+    char[] len ``,
+    @calculatedFrom(""it's"")
+    zchar[65535] roots @calculatedFrom(""x y"") `u8 x,`,
+    uint64 Header,
 }")).
-Eval vm_compute in ("<<<M293>>>" ++ check (runes_of_ascii "root packet zchar { @rightPad (  ) repeat
-uint32 Pad  ,
-// a // b
-// c
-char[ 4294967296 ] f32a @calculatedFrom( """" )
-`u8 x,`
-, uint16 BodyLength @lengthOf( packetx)
-`it's`  , @calculatedFrom( ""a\\"" ) string falsey // c
-`a\`
-    , matchKey Packet`it's` , match trueish as matchKey
-{ ""\n"" : trueish [ ""\n"" ,
-3]
-    : len , [ 10  ] : Logon // `tick` ""quote"" 'q'
-0123456789
-: packetx ,  ""it's"" :
-Pad , 42
-// @lengthOf(
-// a // b
-:
-    falsey , } ,
-match metadata
-    as rootA { """ ++ [128512]%N ++ runes_of_ascii """ : Header ,
-255 : T ,0123456789 : tag
-    , ""x y""
-: MetaDataX ,} ,}")).
-Eval vm_compute in ("<<<M187>>>" ++ check (runes_of_ascii "root packet A
-{  match
-u8x as body {
-7:
-    BodyLength // trailing space 
-, 007 : _x , 10 :
-    Header},// `tick` ""quote"" 'q'
-@lengthOf( pack ) tag @lengthOf( rootA  )
-,match a1 as  calculatedFrom
-{ 1 :
-string_
-, } ,  @lengthOf( x_y_z
-) a1,
-    @lengthOf(	MetaDataX
-) int ,} packet
-repeatCount { uint64 string_ `two words` , } options	{chars
-    = false; float
-//	t
-// " ++ [27880; 37322]%N ++ runes_of_ascii "
-= """ ++ [28040; 24687]%N ++ runes_of_ascii """ crc=u8 a1 = 1;
-} MetaData // a // b
-leftPad {
-    u128 Header , } options {
-    }
-
-")).
-Eval vm_compute in ("<<<M1929>>>" ++ check (runes_of_ascii "  packet
-Frame	{ u8
-
-HK
-
-    , 
-u8
-
-BK
-	,u8  TK ,match
-HK 
-as
-Hdr 
-{ 
-1:
-	HdrA , 2
-
-: 
-HdrB ,
-	}
+Eval vm_compute in ("<<<M1234>>>" ++ check (runes_of_ascii "packet Packet
+{	char[ 1 ] Header @lengthOf(x_y_z  )
 ,
-
-    match
-BK
-as 
-Body {1 
-:BodyA ,
-
-2
+    @lengthOf( _x // trailing space 
+)
+    repeat Z9_ { i64_, }
+,  @lengthOf(// 50% %s
+repeatCount
+    // " ++ [128512]%N ++ runes_of_ascii " emoji
+    ) @tag(
+4294967296 )// `tick` ""quote"" 'q'
+repeatCount
+    calculatedFrom , u8 a1 @calculatedFrom( ""a	b"")`// not a comment`
+, repeat
+uint32 roots, match i8i8
+as u8x
+{ //x
+[ ""abc"" , ""CRC32"" , 0123456789 ]
     :
-    BodyB , },match 
-TK  as
-
-Trl
-
-    { 
-1
-	: TrlA	,}
-
-    ,
-} packet HdrA	{
-u8 a  ,
-    }
-	packet HdrB
-
-{u16 b
-, }	packet
-    BodyA  {u32
-c
-,
-
-    }packet
-	BodyB
-    { 
-u64
-	d ,	}  packet
-TrlA	{
-    u8
-e	,
-
-}root packet Msg  {
-
-    Frame
-	,u8
-
-x,
-	}")).
-Eval vm_compute in ("<<<M79>>>" ++ check (runes_of_ascii "options { len =
-    255 tag=""" ++ [233]%N ++ runes_of_ascii "t" ++ [233]%N ++ runes_of_ascii """ }packet	packetx
-{
-    } options { repeatCount= '\x00' ; x = 4294967296 len =
-false	; A =
-    false ;Packet
-= """" // " ++ [27880; 37322]%N ++ runes_of_ascii "
-;
-    }MetaData
-    x  {
-//
-// `tick` ""quote"" 'q'
-uint32 roots,  lengthOf o `
-`	,
-u32
-    x_y_z `line1
-line2` ,
-    int64  msg_type
-// a // b
-//
-`crlf
-line`	, string repeatCount `line1
-line2` , u128 stringy
-    , }")).
-Eval vm_compute in ("<<<M1433>>>" ++ check (runes_of_ascii "
-options { LittleEndian  =
-    true  ;
-	ArrayPrefixLenType	= 
-u64;
-	FixedStringPadFromLeft
-=false
-; }
-
-    packet  Quote 
-{
-
-    }
-root packet	Order	{i64
-
-    Side2
-    ,
-    Quote ,
-
-    u32 
-Px
-,
-match Px
-as
-	Body
-{
-
-[
-    119
-    ,
-
-    147 ]
-
-:  Quote
-,}
-    ,	u16
-    Flags  @calculatedFrom(
-""CRC32""
-)	,
-
-}
-")).
-Eval vm_compute in ("<<<M43>>>" ++ check (runes_of_ascii "MetaData Foo
-    {
-    chars i8i8 ,  }MetaData
-// trailing space 
-// " ++ [27880; 37322]%N ++ runes_of_ascii "
-BodyLength{calculatedFrom a1 `it's`
-,
-} packet Z9_ //	t
-{ @calculatedFrom(
-    """ ++ [128512]%N ++ runes_of_ascii """ ) @lengthOf( metadata )
-    string a1
-    /// triple
-    `{ , }` ,
-    match
-u8x as o { 10
-:  Foo // @lengthOf(
-, ""abc"" : falsey},
-}
-")).
-Eval vm_compute in ("<<<M274>>>" ++ check (runes_of_ascii "packet falsey
-    { //	t
-_x { T@calculatedFrom(
-""" ++ [28040; 24687]%N ++ runes_of_ascii """
-),int64 roots , match
-    float as a1 { 1//	t
-:falsey  , [
-    // c
-    ""CRC32""  ,""a\""b"" ,
-    255 , 65535 , 42	,0123456789]
+    calculatedFrom 4294967296 :float,
+0
+: chars , ""abc""  : i8i8 // `tick` ""quote"" 'q'
+,} , match lengthOf as float
+    {""{,}""
+    : f32a ""abc""
+: zchar 00
+: u128 , 4294967296 : leftPad ,
+""1""
+//x
+// packet A { u8 x, }
 :
-pack
-, }, } , pack
-    { falsey//x
-, } , packetx // packet A { u8 x, }
+    i8i8,
+    1 : uint8x
+, } ,
+match asx as a1
+    // trailing space 
+    {
+4294967296 : // @lengthOf(
+uint8x ,
+    007 : u	[""" ++ [28040; 24687]%N ++ runes_of_ascii """ ] : u8x, [""a\\""
+, ""\" ++ [233]%N ++ runes_of_ascii """ // @lengthOf(
+] :u 7 : x , 1	:Z9_
+    ,}
+, @lengthOf(
+    x ) repeat
+    // 50% %s
+    int
+msg_type `// not a comment`,
+    }
+
+")).
+Eval vm_compute in ("<<<M686>>>" ++ check (runes_of_ascii "packet  packetx
+{}MetaData u128 { } MetaData	calculatedFrom // 50% %s
+{ repeatCount Packet , a1 rootA
+`{ , }` , float64 rootA`" ++ [28040; 24687; 31867; 22411]%N ++ runes_of_ascii "` ,u trueish
+//
+//	t
+`100% of %d` , As i8i8,// " ++ [128512]%N ++ runes_of_ascii " emoji
+}
+    //x
+    packet a1{ // " ++ [128512]%N ++ runes_of_ascii " emoji
+@lengthOf( packetx )
+A
+    @lengthOf(
+T
+) `" ++ [233]%N ++ runes_of_ascii "`
+    , repeat i32
+    rootA `" ++ [233]%N ++ runes_of_ascii "`, //x
+repeat u16// trailing space 
+metadata , @calculatedFrom(""x y"")
+    @leftPad
+    ( '0'
+) repeat zchar[
+    255 ] matchKey , // a // b
+match rootA
+as
+    u128
+{
+[ 7 ,
+    ""1"" ,
+""{,}""	, ""packet""
+,3 ]:
+u ,""" ++ [233]%N ++ runes_of_ascii "t" ++ [233]%N ++ runes_of_ascii """: tag
+/// triple
+// " ++ [27880; 37322]%N ++ runes_of_ascii "
+00: T ,10:	leftPad , ""x y""	:	options1  ,
+// packet A { u8 x, }
+//
+} , @calculatedFrom(
+""packet"" ) match
+    As as
+    len { 4294967296 :
+trueish
+    , 42 :// trailing space 
+lengthOf	, }
+    , @tag(  1 )
+string _x
+    @lengthOf( string_) ,  char[]
+    BodyLength @lengthOf( int ) `100% of %d`  ,
+i8 pack
+    , }
+")).
+Eval vm_compute in ("<<<M818>>>" ++ check (runes_of_ascii "options { roots // " ++ [128512]%N ++ runes_of_ascii " emoji
+= zchar[
+    // a // b
+    7  ] ;} root packet chars  {	u8x uint8x ,
+    // @lengthOf(
+    }
+    root packet//x
+Header {
+@tag( 00
+)	match chars as _x { 4294967296 :
+i64_
+,
+}, zchar[00 ]
+Header
+,  Header`{ , }` , i64_ Packet ,@lengthOf(
+    a1 ) @rightPad ( ) @lengthOf( Header
+    )repeat int8 trueish
+    // a // b
+    `doc` , @calculatedFrom( ""a\""b"" ) repeat
+Foo,	@leftPad ( )
+    zchar[ 3]
+    u8x ,
+@rightPad
+(
+    ) repeat matchKey {
+    // a // b
+    i32 roots
+    , options1 { Foo@calculatedFrom( ""1""// packet A { u8 x, }
+)
+    `u8 x,` ,i64_
+,	i64_ `doc`,	}
+    ,} ,
+match matchKey
+    as f32a {
+    """ ++ [128512]%N ++ runes_of_ascii """:
+body,}
+    , repeat u	lengthOf// `tick` ""quote"" 'q'
+, }packet Header  { // packet A { u8 x, }
+@lengthOf( a1 ) Header @calculatedFrom( ""\n""//
+)
+    `line1
+line2`
 , }
 ")).
-Eval vm_compute in ("<<<M1363>>>" ++ check (runes_of_ascii "// top
-options
-    // c0
+Eval vm_compute in ("<<<M395>>>" ++ check (runes_of_ascii "packet	A	{ @lengthOf(
+    trueish
+    ) repeat rootA float
+    ,
+char[ 42
+    ] packetx,
+u8x@calculatedFrom(
+    ""abc"") , int16 body	@lengthOf(
+BodyLength) `{ , }` ,
+// packet A { u8 x, }
+// @lengthOf(
+repeat i8i8
 {
+Pad u128 ,
+    // `tick` ""quote"" 'q'
+    zchar[ 10]	string_ // " ++ [27880; 37322]%N ++ runes_of_ascii "
+@calculatedFrom( ""a	b""
+    )
+    `a\`  , char[ 42 ]u8x // @lengthOf(
+,
+    int64
+u@calculatedFrom( ""// no comment"" ),
+    }, match
+Pad
+as float
+{ 007 : Packet, 65535 :  _x 0123456789 : // c
+charz	, } ,
+    A // a // b
+`it's` , @calculatedFrom(""a	b"") // " ++ [128512]%N ++ runes_of_ascii " emoji
+match  A as T { ""{,}"" // packet A { u8 x, }
+: int
+""`tick`"" : zchar, [
+7 ,
+// `tick` ""quote"" 'q'
+//
+""\n""  ] : i8i8 //x
+, """ ++ [128512]%N ++ runes_of_ascii """
+:	Packet }  , @calculatedFrom( ""a\\"" ) repeat _x {
+trueish Foo,
+}
+    ,
+    // trailing space 
+    }")).
+Eval vm_compute in ("<<<M1130>>>" ++ check (runes_of_ascii "  packet int { crc @lengthOf( leftPad ) `u8 x,` , zchar[ 4294967296 ]metadata`100% of %d`
+,
+    @calculatedFrom(	""" ++ [28040; 24687]%N ++ runes_of_ascii """ )
+@tag(// packet A { u8 x, }
+1 ) char[10 ] Header,	@tag(
+    10 ) repeat f32a { match f32a as uint8x //x
+{//	t
+""CRC32""
+    : u128
+    , 4294967296: u8x , [
+00 ,65535 ] :
+leftPad, 007
+: leftPad , }
+    // trailing space 
+    ,// 50% %s
+repeat
+char msg_type `two words` ,  }
+, }options { // `tick` ""quote"" 'q'
+string_
+=string // trailing space 
+}packet string_ {/// triple
+As
+// " ++ [27880; 37322]%N ++ runes_of_ascii "
+// `tick` ""quote"" 'q'
+@lengthOf(
+    Header) `u8 x,`,char[007]	options1`two words`
+    , u128
+    @calculatedFrom(	""" ++ [28040; 24687]%N ++ runes_of_ascii """
+    )  ,
+    zchar[
+00 // " ++ [128512]%N ++ runes_of_ascii " emoji
+]  chars, char[] len// c
+@calculatedFrom( ""CRC32"" ) // trailing space 
+, }
+")).
+Eval vm_compute in ("<<<M4319>>>" ++ check (runes_of_ascii "packet uint8x {
+    i16 T `say ""hi""`,
+    @tag(007)
+    zchar[42] roots ``,
+    match uint8x as tag {
+        10 : T,
+        007 : int,
+        ""\" ++ [233]%N ++ runes_of_ascii """ : charz,
+        // @lengthOf(
+        [
+            255, ""it's"", 255, 7, ""a\\"",
+            """ ++ [28040; 24687]%N ++ runes_of_ascii """
+        ] : Pad,
+        [""// no comment""] : matchKey,
+    },
+    @rightPad('\x00')
+    repeat u8x {
+        repeat i16 x_y_z,
+        u8 calculatedFrom,
+        x u128,
+        body,
+    },
+    i32 Logon @calculatedFrom(""`tick`""),
+    repeat crc,
+    u,
+    @calculatedFrom("""")
+    float64 i8i8,
+    @tag(42)
+    @lengthOf(Z9_)
+    @tag(00)
+    Logon metadata,
+    float64 packetx,
+}
+
+packet int {
+}
+
+MetaData trueish {
+    u32 leftPad,// @lengthOf(
+}")).
+Eval vm_compute in ("<<<M4047>>>" ++ check (runes_of_ascii "// " ++ [27880; 37322]%N ++ runes_of_ascii "
+packet u {
+    float @calculatedFrom(""it's""),
+}
+
+// " ++ [27880; 37322]%N ++ runes_of_ascii "
+packet string_ {
+    // `tick` ""quote"" 'q'
+    @tag(4294967296)
+    @lengthOf(charz)
+    @leftPad(' ')
+    uint8x @lengthOf(zchar),//
+    string body,
+    @calculatedFrom(""{,}"")
+    As,
+}
+
+packet u {
+    // packet A { u8 x, }
+    @lengthOf(roots)
+    uint8 f32a `{ , }`,
+    // " ++ [27880; 37322]%N ++ runes_of_ascii "
+    repeat options1,
+    u8x As `a\`,
+    @lengthOf(msg_type)
+    repeat char[42] u8x,
+    _x {
+        repeat Packet a1 `u8 x,`,
+        repeat int As,
+        repeat f64 chars `100% of %d`,
+    },
+    zchar[3] uint8x,
+    // trailing space 
+    zchar[007] Packet,
+}
+
+MetaData repeatCount {
+    float32 calculatedFrom,
+}//	t")).
+Eval vm_compute in ("<<<M1158>>>" ++ check (runes_of_ascii "options { //	t
+}
+packet// " ++ [27880; 37322]%N ++ runes_of_ascii "
+int  { repeat	packetx ,	@calculatedFrom(
+""{,}""  ) match int as tag {
+3: Z9_	, [ ""{,}"" ]
+:a1,
+""packet"" : stringy // c
+, 1:
+Foo , }, trueish// `tick` ""quote"" 'q'
+{repeat
+// a // b
+// trailing space 
+Foo	{
+    // trailing space 
+    string u
+    // " ++ [27880; 37322]%N ++ runes_of_ascii "
+    @lengthOf( crc
+)
+    , },
+}, @tag(//	t
+42)
+    match
+trueish
+as MetaDataX { [
+""`tick`""
+    , ""\n"" , 1// " ++ [27880; 37322]%N ++ runes_of_ascii "
+, 0
+    ,
+// packet A { u8 x, }
+// a // b
+65535 , 65535
+] : x
+, [
+    // trailing space 
+    ""x y"" ] :pack , [ 42
+    ,""// no comment"" ]
+:
+    repeatCount , [ 42 // `tick` ""quote"" 'q'
+,  1 , 007,
+    3 , ""packet""// c
+, ""a\\""
+]:  asx,
+} ,	}
+//
+")).
+Eval vm_compute in ("<<<M444>>>" ++ check (runes_of_ascii "
+packet _x { @leftPad('0' ) BodyLength@calculatedFrom(""{,}"") ,	@leftPad
+// trailing space 
+// 50% %s
+( // `tick` ""quote"" 'q'
+)matchKey {// trailing space 
+char tag @calculatedFrom( """ ++ [233]%N ++ runes_of_ascii "t" ++ [233]%N ++ runes_of_ascii """
+    ) , int64 Foo // " ++ [128512]%N ++ runes_of_ascii " emoji
+,	}
+    ,repeat roots  { repeat tag // `tick` ""quote"" 'q'
+, f64 float@calculatedFrom(""" ++ [128512]%N ++ runes_of_ascii """	)
+    ,	}, @tag(
+    007)  repeat
+i8i8
+`it's` , @leftPad ( ' '
+)
+    @calculatedFrom( """ ++ [128512]%N ++ runes_of_ascii """ ) // packet A { u8 x, }
+repeat Packet stringy, charz body
+`say ""hi""`	, @rightPad ( '0' )
+@tag(  4294967296 )@calculatedFrom( ""packet""	)
+i32  packetx , u64 _x @lengthOf(matchKey )
+`crlf
+line` ,
+char[ 0
+] u128 , }
+
+")).
+Eval vm_compute in ("<<<M1299>>>" ++ check (runes_of_ascii "packet // 50% %s
+_x { @lengthOf( msg_type ) @tag( 3 )  @tag( 42 ) match float as
+    crc{ // trailing space 
+""1"" // c
+:
+As
+    , """ ++ [233]%N ++ runes_of_ascii "t" ++ [233]%N ++ runes_of_ascii """  :
+repeatCount }
+    ,@tag(
+3 ) match BodyLength as string_{ [ // " ++ [128512]%N ++ runes_of_ascii " emoji
+007,
+65535 , """" ] : pack ,""" ++ [233]%N ++ runes_of_ascii "t" ++ [233]%N ++ runes_of_ascii """
+:
+asx
+    [ ""it's""  , ""a\\"" ] :
+// c
+//	t
+A ,
+    """"  : body , // @lengthOf(
+""// no comment"" : options1 , [ 255
+,""x y"" ,
+4294967296 , 0123456789 ,
+"""" , ""a	b""
+] :Pad, } , @calculatedFrom(""it's""
+)falsey // c
+@calculatedFrom( ""abc"" ) `u8 x,`	,zchar[ // trailing space 
+1 ] Logon
+    `" ++ [28040; 24687; 31867; 22411]%N ++ runes_of_ascii "` ,  @tag( 0 ) int Header// trailing space 
+, }")).
+Eval vm_compute in ("<<<M1101>>>" ++ check (runes_of_ascii "MetaData
+trueish {trueish len,
+string	T ,char[ 0123456789 ]chars
+,falsey As // @lengthOf(
+`it's`
+, chars
+calculatedFrom//
+, char[] options1 , } root packet leftPad {@rightPad ( ' '	) repeat
+matchKey  {
+    // 50% %s
+    msg_type @calculatedFrom( // a // b
+""" ++ [233]%N ++ runes_of_ascii "t" ++ [233]%N ++ runes_of_ascii """ ) ,}	, zchar[// a // b
+65535] metadata `a\` , repeat char[ /// triple
+0123456789]falsey `
+`  , }
+root
+    // trailing space 
+    packet falsey{	f32a
+`crlf
+line` , }
+//x
+// " ++ [27880; 37322]%N ++ runes_of_ascii "
+options
+    { u8x = ""a\""b"" }
+MetaData options1 { uint8 tag `line1
+line2` ,
+char lengthOf,  zchar[ 0
+]
+As	, }
+")).
+Eval vm_compute in ("<<<M659>>>" ++ check (runes_of_ascii "root
+packet
+uint8x
+{ @calculatedFrom(
+""a\\"") char[
+007 ] Packet ,@lengthOf(Foo ) charz @lengthOf(int)
+    ,
+    len {	i8	chars
+// 50% %s
+// " ++ [128512]%N ++ runes_of_ascii " emoji
+, }
+,match tag as BodyLength
+// " ++ [128512]%N ++ runes_of_ascii " emoji
+//x
+{7 :
+roots ,  ""a\\""
+: lengthOf
+    ,""1"" : chars
+,
+    // 50% %s
+    } , @leftPad (
+'\x00' ) _x@lengthOf(	MetaDataX),  repeat x{ match
+    Logon	as options1
+{ 3
+: //x
+Pad , [ ""abc""	,
+    7 , 3, ""x y"" ] : o, [ 4294967296] :
+leftPad , /// triple
+""" ++ [28040; 24687]%N ++ runes_of_ascii """
+: Pad ,}
+    // 50% %s
+    ,
+zchar[ 0123456789 // a // b
+]	leftPad ,// " ++ [27880; 37322]%N ++ runes_of_ascii "
+stringy T
+, } , }
+")).
+Eval vm_compute in ("<<<M206>>>" ++ check (runes_of_ascii "root
+    packet roots{} packet u128 {  @tag(
+    65535	)
+    // `tick` ""quote"" 'q'
+    zchar[ 42
+]x //
+@calculatedFrom(
+//	t
+//
+""a	b"" )  `doc` ,}
+options
+    {calculatedFrom = int32; /// triple
+}packet
+u8x
+    { @calculatedFrom(// c
+""\" ++ [233]%N ++ runes_of_ascii """ )string_
+@lengthOf(asx ) ,@tag( 007	) @tag(10 ) repeat char[] Foo `100% of %d` ,  repeat
+    i64_
+{ match u8x as // `tick` ""quote"" 'q'
+tag//
+{ [ ""`tick`""] // " ++ [128512]%N ++ runes_of_ascii " emoji
+:
+    //
+    T ,
+42: x_y_z
+}  ,char[ 7 ]
+Z9_	@calculatedFrom(
+    ""a\\"" )`line1
+line2` , float64 msg_type
+, } ,
+}")).
+Eval vm_compute in ("<<<M54>>>" ++ check (runes_of_ascii "// trailing space 
+root packet
+    uint8x { char[] repeatCount , repeat asx{char[ 00	] stringy@lengthOf(
+Foo ) // a // b
+,
+    i8  string_ // 50% %s
+, } , float64 i8i8 `a\`,
+@tag( 0
+) MetaDataX
+// @lengthOf(
+// " ++ [128512]%N ++ runes_of_ascii " emoji
+{ repeat uint16 stringy ,
+repeat x_y_z, asx ,
+}
+    , @rightPad(
+'\x00' )  repeat char[ 7 ]  metadata,
+    i16 x ,
+match falsey	as asx
+{""a\""b"": u
+    ,
+    }
+//
+//	t
+, } options
+    {// 50% %s
+A =	string o =	i32
+;Pad = ""abc"" _x =	true; } options {
+Pad
+= zchar[ 42] ;}")).
+Eval vm_compute in ("<<<M556>>>" ++ check (runes_of_ascii "
+options {
+} packet// `tick` ""quote"" 'q'
+x { @lengthOf( BodyLength
+    ) charz _x`doc` ,
+//x
+// packet A { u8 x, }
+@calculatedFrom( ""abc""
+)
+    o matchKey , @tag(
+255
+    )
+char
+// 50% %s
+// @lengthOf(
+repeatCount @lengthOf(	i64_
+    // a // b
+    )
+, }root packet len { @leftPad ( '\x00' )
+//x
+// " ++ [27880; 37322]%N ++ runes_of_ascii "
+Z9_ @lengthOf( asx )
+    `` ,  } packet metadata { char[ 00]
+    packetx @lengthOf( i8i8 ) ,	int32
+Packet
+@lengthOf( x_y_z ),	@tag( 1 ) repeat  uint8 len,
+    }
+")).
+Eval vm_compute in ("<<<M208>>>" ++ check (runes_of_ascii "packet stringy
+// `tick` ""quote"" 'q'
+// packet A { u8 x, }
+{
+// trailing space 
+//x
+match falsey as uint8x { ""a\\""
+: As
+,""1"":
+    f32a ,""it's""
+:MetaDataX  65535 //x
+: msg_type , """ ++ [128512]%N ++ runes_of_ascii """ :
+    matchKey
+, },}
+    packet trueish
+{string_	u8x
+,repeat string_{ // a // b
+msg_type {
+charz @lengthOf( u8x
+)  ,  } ,} , @lengthOf(
+body )
+zchar[ 7 ] string_ `say ""hi""`,
+char[255 ] uint8x @calculatedFrom(	""\" ++ [233]%N ++ runes_of_ascii """ ) `a\` ,
+}
+MetaData
+tag {
+    As
+roots
+    ,}
+")).
+Eval vm_compute in ("<<<M3881>>>" ++ check (runes_of_ascii "packet a1 {
+    match asx as f32a {
+        10 : Z9_,
+        4294967296 : len,
+        ""`tick`"" : repeatCount,
+        ""1"" : BodyLength,
+        0123456789 : As,
+    },
+    repeatCount leftPad,
+    repeat metadata {
+        repeat u chars,
+    },
+    // a // b
+    //x
+}
+
+packet float {
+    repeat x x,
+    repeat zchar[007] i64_,
+    u8 float @lengthOf(string_),
+    asx @calculatedFrom(""\n""),
+}
+
+options {
+    trueish = 65535;
+}")).
+Eval vm_compute in ("<<<M380>>>" ++ check (runes_of_ascii "MetaData o { u128	Z9_ ,	i8 metadata ,char len // a // b
+`u8 x,` , o f32a , float
+float ,	calculatedFrom
+i64_ // 50% %s
+, }
+packet packetx { //	t
+@calculatedFrom( ""a\\""
+)
+    // 50% %s
+    match u128 as  x { [ 10 , ""a\""b"" // trailing space 
+] :tag
+, [255 ]
+:
+packetx
+// " ++ [128512]%N ++ runes_of_ascii " emoji
+// a // b
+[ 0123456789 //x
+] : metadata ,""CRC32"" : roots """ ++ [28040; 24687]%N ++ runes_of_ascii """ :
+    // @lengthOf(
+    o,
+    [
+    255  ]:  Packet }
+    //	t
+    , } //x")).
+Eval vm_compute in ("<<<M721>>>" ++ check (runes_of_ascii "
+options{
+    // c
+    len = true ; } packet pack
+{uint8 rootA `line1
+line2` , }
+options { u  =
+""\n"" ; MetaDataX = ""`tick`"" ;
+    charz = """ ++ [233]%N ++ runes_of_ascii "t" ++ [233]%N ++ runes_of_ascii """  ;
+}root
+packet// 50% %s
+i8i8 //
+{//x
+@rightPad (//
+' ') i32 // c
+msg_type// " ++ [128512]%N ++ runes_of_ascii " emoji
+,	@tag(	007 ) BodyLength	@lengthOf(
+// " ++ [27880; 37322]%N ++ runes_of_ascii "
+// trailing space 
+charz )
+    `` ,
+@leftPad() A@calculatedFrom( """ ++ [233]%N ++ runes_of_ascii "t" ++ [233]%N ++ runes_of_ascii """ ) , char zchar @lengthOf( lengthOf )
+`crlf
+line` , }
+
+")).
+Eval vm_compute in ("<<<M872>>>" ++ check (runes_of_ascii "  root packet metadata { @leftPad(	'0' ) @calculatedFrom( ""packet"" ) match  Logon as Header
+    // " ++ [128512]%N ++ runes_of_ascii " emoji
+    { 3
+: body 1: f32a 00 :o, ""a\""b"": o, ""packet""
+: asx	, }
+,
+//x
+// " ++ [27880; 37322]%N ++ runes_of_ascii "
+@tag( 0123456789
+    ) f64 msg_type , @leftPad ( // packet A { u8 x, }
+' ' )string msg_type @calculatedFrom( ""CRC32"" )
+    // @lengthOf(
+    ,
+    } options { _x = ""1"" ; Header =f64; } packet lengthOf { }")).
+Eval vm_compute in ("<<<M3428>>>" ++ check (runes_of_ascii "// top
+options // c0
+{ // c1
+} // c2
+options // c3
+{ // c4
+string_ // c5
+= // c6
+false // c7
+; // c8
+msg_type // c9
+= // c10
+""1"" // c11
+; // c12
+} // c13
+MetaData // c14
+lengthOf // c15
+{ // c16
+zchar[ // c17
+4294967296 // c18
+] // c19
+Z9_ // c20
+, // c21
+uint8 // c22
+i8i8 // c23
+`two words` // c24
+, // c25
+char[ // c26
+7 // c27
+] // c28
+charz // c29
+, // c30
+} // c31
+")).
+Eval vm_compute in ("<<<M3459>>>" ++ check (runes_of_ascii "// top
+packet // c0a
+  // c0b
+B
     // c1
-FixedStringPadFromLeft =
-    // c3
-true // c4
-;
+{ // c2a
+  // c2b
+u8 // c3a
+  // c3b
+a // c4
+,
+    // c5
+} // c6
+root packet // c8a
+  // c8b
+P { // c10
+u8 // c11a
+  // c11b
+K // c12
+, // c13
+match K
+    // c15
+as // c16
+Body { // c18a
+  // c18b
+1 // c19a
+  // c19b
+: B // c21
+, } , u16 // c25
+L @lengthOf( // c27a
+  // c27b
+Body // c28
+) // c29
+, // c30
+} // c31
+")).
+Eval vm_compute in ("<<<M534>>>" ++ check (runes_of_ascii "MetaData
+asx
+{ trueish charz,
+    } packet rootA  { @tag( 007 ) @rightPad  (  '\x00'
+    ) asx tag `// not a comment`
+,
+    @calculatedFrom(
+    ""\" ++ [233]%N ++ runes_of_ascii """ //
+)
+@leftPad (
+'\x00')
+    int64 _x
+    `100% of %d` , @tag( 4294967296
+    )	@tag(
+// " ++ [128512]%N ++ runes_of_ascii " emoji
+/// triple
+3) Packet @calculatedFrom(
+""" ++ [128512]%N ++ runes_of_ascii """
+    )	`" ++ [233]%N ++ runes_of_ascii "`
+//x
+// @lengthOf(
+,repeat u32 o `crlf
+line`, }")).
+Eval vm_compute in ("<<<M1239>>>" ++ check (runes_of_ascii "root	packet _x{	match x_y_z as o
+    {[	0 ,
+65535//x
+]
+: stringy , ""{,}"" :
+// " ++ [128512]%N ++ runes_of_ascii " emoji
+// c
+string_ } ,} MetaData x_y_z { BodyLength u8x `line1
+line2` , }packet chars { @tag( 3)f64 options1`// not a comment` , string
+tag
+    /// triple
+    @lengthOf(BodyLength )
+,@tag( 42 )	@tag( 0)
+@tag(
+65535 )zchar[ 10
+    ] u128
+`" ++ [28040; 24687; 31867; 22411]%N ++ runes_of_ascii "`, }
+")).
+Eval vm_compute in ("<<<M3259>>>" ++ check (runes_of_ascii "MetaData metadata { } // c3a
+  // c3b
+MetaData rootA {
+    // c6
+i8 // c7
+i64_ , roots // c10a
+  // c10b
+options1 // c11
+`a\`
+    // c12
+,
+    // c13
+lengthOf // c14
+Header // c15
+, // c16a
+  // c16b
+Z9_ Foo // c18a
+  // c18b
+, // c19a
+  // c19b
+int16 // c20a
+  // c20b
+BodyLength // c21a
+  // c21b
+, }
+    // c23
+")).
+Eval vm_compute in ("<<<M4206>>>" ++ check (runes_of_ascii "  // top
+
+MetaData 	 // c0
+    float  // c1
+	{ 	 // c2
+    	uint8 // c3
+    BodyLength// c4
+,  // c5
+    } 	 // c6
+	MetaData 	 // c7
+  charz 	 // c8
+  	{	// c9
+    float32 	 // c10
+	trueish // c11
+    `a\`// c12
+    ,	// c13
+    i16	// c14
+	metadata 	 // c15
+  	`say ""hi""` 	 // c16
+, // c17
+}  // c18
+")).
+Eval vm_compute in ("<<<M1922>>>" ++ check (runes_of_ascii "packet	packetx { // trailing space 
+x_y_z
+{
+string
+charz ,
+string x// @lengthOf(
+`two words`
+    ,  u8x { // `tick` ""quote"" 'q'
+charz `100% of %d` `100% of %d` // packet A { u8 x, }
+,}// " ++ [27880; 37322]%N ++ runes_of_ascii "
+,} , }
+    // a // b
+    packet metadata {  @leftPad ( '0') repeat i32 options1 ,u64 uint8x , }
+")).
+Eval vm_compute in ("<<<M871>>>" ++ check (runes_of_ascii "//
+packet	metadata{ }  packet u8x { @leftPad( ' ' ) // @lengthOf(
+repeat char[ 7 ] u8x `" ++ [28040; 24687; 31867; 22411]%N ++ runes_of_ascii "` , @rightPad
+(  '\x00' )
+@lengthOf( matchKey)
+string As //x
+, zchar[ 255 ] msg_type
+// packet A { u8 x, }
+//	t
+`line1
+line2` , @leftPad (
+'\x00') @tag( 255
+) i8i8 , float64 _x
+    `" ++ [233]%N ++ runes_of_ascii "`
+    , }
+")).
+Eval vm_compute in ("<<<M554>>>" ++ check (runes_of_ascii "options {
+    // packet A { u8 x, }
+    } options {	uint8x =uint64 ; int = u64 ;
+tag =007 ;
+int =255	; metadata  = '\x00'	} MetaData
+asx { u8 options1	``
+    , char
+charz `a\` ,  string_ Packet
+    // c
+    `
+` , uint8 As ,//
+Logon
+// @lengthOf(
+//x
+As `it's` ,
+u32 As  ,
+    }
+")).
+Eval vm_compute in ("<<<M1919>>>" ++ check (runes_of_ascii "packet	packetx { // trailing space 
+x_y_z
+{
+string
+charz ,
+string x// @lengthOf(
+`two words`
+    ,  u8x { // `tick` ""quote"" 'q'
+uint16 `100% of %d` // packet A { u8 x, }
+,}// " ++ [27880; 37322]%N ++ runes_of_ascii "
+,} , }
+    // a // b
+    packet metadata {  @leftPad ( '0') repeat i32 options1 ,u64 uint8x , }
+")).
+Eval vm_compute in ("<<<M1948>>>" ++ check (runes_of_ascii "packet	packetx { // trailing space 
+x_y_z
+{
+string
+charz ,
+string x// @lengthOf(
+`two words`
+    ,  u8x { // `tick` ""quote"" 'q'
+charz `100% of %d` // packet A { u8 x, }
+,}// " ++ [27880; 37322]%N ++ runes_of_ascii "
+,} } ,
+    // a // b
+    packet metadata {  @leftPad ( '0') repeat i32 options1 ,u64 uint8x , }
+")).
+Eval vm_compute in ("<<<M1946>>>" ++ check (runes_of_ascii "packet	packetx { // trailing space 
+x_y_z
+{
+string
+charz ,
+string x// @lengthOf(
+`two words`
+    ,  u8x { // `tick` ""quote"" 'q'
+charz `100% of %d` // packet A { u8 x, }
+,}// " ++ [27880; 37322]%N ++ runes_of_ascii "
+,}  }
+    // a // b
+    packet metadata {  @leftPad ( '0') repeat i32 options1 ,u64 uint8x , }
+")).
+Eval vm_compute in ("<<<M3658>>>" ++ check (runes_of_ascii "options {
+    // packet A { u8 x, }
+}
+
+options {
+    uint8x = uint64;
+    int = u64;
+    tag = 007;
+    int = 255;
+    metadata = '\x00'
+}
+
+MetaData asx {
+    u8 options1 ``,
+    char charz `a\`,
+    string_ Packet `
+    `,
+    uint8 As,//
+    Logon As `it's`,
+    u32 As,
+}")).
+Eval vm_compute in ("<<<M1971>>>" ++ check (runes_of_ascii "packet	packetx { // trailing space 
+x_y_z
+{
+string
+charz ,
+string x// @lengthOf(
+`two words`
+    ,  u8x { // `tick` ""quote"" 'q'
+charz `100% of %d` // packet A { u8 x, }
+,}// " ++ [27880; 37322]%N ++ runes_of_ascii "
+,} , }
+    // a // b
+    packet metadata {   ( '0') repeat i32 options1 ,u64 uint8x , }
+")).
+Eval vm_compute in ("<<<M2196>>>" ++ check (runes_of_ascii "packet// packet A { u8 x, }
+repeatCount	{// packet A { u8 x, }
+@leftPad ( '\x00'
+) repeat u8x MetaDataX `crlf
+line`,
+    repeat
+    char[] MetaDataX
+    ,
+u64	uint8x@calculatedFrom(""a\""b""
+// c
+// packet A { '\x01'u8 x, }
+) `tab	here`
+,//
+}MetaData pack
+    {
+    }
+")).
+Eval vm_compute in ("<<<M228>>>" ++ check (runes_of_ascii "packet tag {repeat zchar[ 42
+    // trailing space 
+    ] A ,
+    }packet o {  repeat
+    // " ++ [27880; 37322]%N ++ runes_of_ascii "
+    A`// not a comment`, @rightPad (
+//	t
+// " ++ [128512]%N ++ runes_of_ascii " emoji
+'\x00' ) @lengthOf(Header
+    ) u8x ,
+@rightPad(
+'0' ) @rightPad(  ' '
+    ) @rightPad ( '0' ) string T, } //	t")).
+Eval vm_compute in ("<<<M4210>>>" ++ check (runes_of_ascii "
+packet
+P1 
+{
+
+u8
+	a , }
+
+    packet
+P2	{ P1
+, 
+}  packet P3 {
+P2 
+,
+	P1
+    , }
+packet
+P4{repeat P3 , P2
+,
+
+}
+
+root  packet P5
+{
+    P4 ,
+	P3
+	,
+	P1
+, u8 K,
+match K	as
+Body
+
+{	4
+	:  P4  ,	3 
+:
+
+    P3
+,
+	2
+
+    :
+
+P2
+,1
+    :
+
+    P1 
+,  }	,
+}
+")).
+Eval vm_compute in ("<<<M2146>>>" ++ check (runes_of_ascii "packet// packet A { u8 x, }
+repeatCount	{// packet A { u8 x, }
+@leftPad ( '\x00'
+) repeat u8x MetaDataX `crlf
+line`,
+    repeat
+    char[] MetaDataX
+    ,
+u64	uint8x@calculatedFrom()
+// c
+// packet A { u8 x, }
+""a\""b"" `tab	here`
+,//
+}MetaData pack
+    {
+    }
+")).
+Eval vm_compute in ("<<<M2097>>>" ++ check (runes_of_ascii "packet// packet A { u8 x, }
+repeatCount	{// packet A { u8 x, }
+@leftPad ( '\x00'
+) repeat u8x zchar[ `crlf
+line`,
+    repeat
+    char[] MetaDataX
+    ,
+u64	uint8x@calculatedFrom(""a\""b""
+// c
+// packet A { u8 x, }
+) `tab	here`
+,//
+}MetaData pack
+    {
+    }
+")).
+Eval vm_compute in ("<<<M1434>>>" ++ check (runes_of_ascii "packet calculatedFrom
+{ @calculatedFrom( ""a\\"" ""a\\"" ) zchar[ 4294967296 ]
+calculatedFrom@lengthOf( pack )	`100% of %d` ,char[]body@calculatedFrom( ""// no comment"" )  ,
+@tag( 007) //x
+int8
+leftPad`it's` , repeat pack
+    { repeat char[ 3] body
+,},
+}")).
+Eval vm_compute in ("<<<M3315>>>" ++ check (runes_of_ascii "// top
+MetaData // c0
+float // c1
+{
+    // c2
+uint8 BodyLength // c4
+,
     // c5
 }
     // c6
-root
-    // c7
-packet P // c9a
+MetaData charz // c8
+{ // c9a
   // c9b
-{
-    // c10
-char[
-    // c11
-4 // c12a
-  // c12b
-] z
-    // c14
-, // c15a
+float32 // c10a
+  // c10b
+trueish `a\` // c12
+,
+    // c13
+i16 // c14
+metadata // c15a
   // c15b
-} ")).
-Eval vm_compute in ("<<<M240>>>" ++ check (runes_of_ascii "packet T {}  MetaData i8i8{
-    calculatedFrom	u128
-`u8 x,` , string_
-a1	`" ++ [233]%N ++ runes_of_ascii "`
-    ,	Foo
-    int ,
-    zchar[007 ]chars , pack x , crc repeatCount , }packet options1
-{ @tag(1 )char[1]
-f32a ,_x@lengthOf(_x ) ``, } // " ++ [128512]%N ++ runes_of_ascii " emoji")).
-Eval vm_compute in ("<<<M437>>>" ++ check (runes_of_ascii "options
-{
-matchKey = 42/// triple
-x='0' ;
-// packet A { u8 x, }
-//
-charz
-= =
-// packet A { u8 x, }
-// trailing space 
-true  ; } MetaData BodyLength
-{
-uint8
-pack,zchar[ 1]float ,  float32 x_y_z `` ,u32
-_x,i16 body  , }
+`say ""hi""` , } // c18
 ")).
-Eval vm_compute in ("<<<M574>>>" ++ check (runes_of_ascii "options
-{
-" ++ [8232]%N ++ runes_of_ascii "matchKey = 42/// triple
-x='0' ;
-// packet A { u8 x, }
-//
-charz
-=
-// packet A { u8 x, }
-// trailing space 
-true  ; } MetaData BodyLength
-{
-uint8
-pack,zchar[ 1]float ,  float32 x_y_z `` ,u32
-_x,i16 body  , }
-")).
-Eval vm_compute in ("<<<M518>>>" ++ check (runes_of_ascii "options
-{
-matchKey = 42/// triple
-x='0' ;
-// packet A { u8 x, }
-//
-charz
-=
-// packet A { u8 x, }
-// trailing space 
-true  ; } MetaData BodyLength
-{
-uint8
-pack,zchar[ 1]float ,  float32 `` x_y_z ,u32
-_x,i16 body  , }
-")).
-Eval vm_compute in ("<<<M421>>>" ++ check (runes_of_ascii "options
-{
-matchKey = 42/// triple
-x= ;
-// packet A { u8 x, }
-//
-charz
-=
-// packet A { u8 x, }
-// trailing space 
-true  ; } MetaData BodyLength
-{
-uint8
-pack,zchar[ 1]float ,  float32 x_y_z `` ,u32
-_x,i16 body  , }
-")).
-Eval vm_compute in ("<<<M1652>>>" ++ check (runes_of_ascii "packet A {
-    match k as n {
-        ""x\
-                y"" : B,
-        [""x\
-                y"", 1] : C,
-        [
-            1, 2, 3, 4, 5,
-            ""x\
-                        y""
-        ] : D,
-    },
+Eval vm_compute in ("<<<M1625>>>" ++ check (runes_of_ascii "packet calculatedFrom
+{ @calculatedFrom( ""a\\"" ) zchar[ 4294967296 ]
+calculatedFrom@lengthOf( pack )	`100% of %d` ,char[]body@calculatedFrom( ""// no comment"" )  ,
+@tag( 007) //x
+int8
+leftPad`it's` , repeat pack
+    { $ repeat char[ 3] body
+,},
 }")).
-Eval vm_compute in ("<<<M525>>>" ++ check (runes_of_ascii "options
-{
-matchKey = 42/// triple
-x='0' ;
-// packet A { u8 x, }
-//
-charz
-=
-// packet A { u8 x, }
-// trailing space 
-true  ; } MetaData BodyLength
-{
-uint8
-pack,zchar[ 1]float ,  float32 x_y_z")).
-Eval vm_compute in ("<<<M687>>>" ++ check (runes_of_ascii "// c
-packet i64_ {	char[] calculatedFrom , } packet
-trueish  {@calculatedFrom(
-""a\\"" ) o { packet falsey@lengthOf( uint8x ),
-} , } // `tick` ""quote"" 'q'
-options {// c
-Z9_ = ' '//
-}
+Eval vm_compute in ("<<<M1425>>>" ++ check (runes_of_ascii "packet calculatedFrom
+@calculatedFrom( { ""a\\"" ) zchar[ 4294967296 ]
+calculatedFrom@lengthOf( pack )	`100% of %d` ,char[]body@calculatedFrom( ""// no comment"" )  ,
+@tag( 007) //x
+int8
+leftPad`it's` , repeat pack
+    { repeat char[ 3] body
+,},
+}")).
+Eval vm_compute in ("<<<M1595>>>" ++ check (runes_of_ascii "packet calculatedFrom
+{ @calculatedFrom( ""a\\"" ) zchar[ 4294967296 ]
+calculatedFrom@lengthOf( pack )	`100% of %d` ,char[]body@calculatedFrom( ""// no comment"" )  ,
+@tag( 007) //x
+int8
+leftPad`it's` , repeat pack
+    { repeat char[ 3] body
+},,
+}")).
+Eval vm_compute in ("<<<M153>>>" ++ check (runes_of_ascii "packet i64_{ char[]matchKey`it's`,
+len	{ repeat float
+    ,
+// " ++ [128512]%N ++ runes_of_ascii " emoji
+// a // b
+u8 uint8x // " ++ [27880; 37322]%N ++ runes_of_ascii "
+@calculatedFrom( ""x y"" )
+, i64 // @lengthOf(
+u ,// packet A { u8 x, }
+repeat
+    char[255
+]  As ,	}, a1
+, }
+    options
+    { matchKey
+=	""" ++ [28040; 24687]%N ++ runes_of_ascii """ ;	}
 ")).
-Eval vm_compute in ("<<<M701>>>" ++ check (runes_of_ascii "// c
-packet i64_ {	char[] calculatedFrom , } packet
-trueish  {@calculatedFrom(
-""a\\"" ) o { i32 falsey@lengthOf( uint8x ,
-} , } // `tick` ""quote"" 'q'
-options {// c
-Z9_ = ' '//
-}
-")).
-Eval vm_compute in ("<<<M500>>>" ++ check (runes_of_ascii "options
+Eval vm_compute in ("<<<M1414>>>" ++ check (runes_of_ascii " calculatedFrom
+{ @calculatedFrom( ""a\\"" ) zchar[ 4294967296 ]
+calculatedFrom@lengthOf( pack )	`100% of %d` ,char[]body@calculatedFrom( ""// no comment"" )  ,
+@tag( 007) //x
+int8
+leftPad`it's` , repeat pack
+    { repeat char[ 3] body
+,},
+}")).
+Eval vm_compute in ("<<<M3360>>>" ++ check (runes_of_ascii "// top
+MetaData
+    // c0
+_x
+    // c1
 {
-matchKey = 42/// triple
-x='0' ;
-// packet A { u8 x, }
-//
+    // c2
+f64
+    // c3
 charz
-=
-// packet A { u8 x, }
-// trailing space 
-true  ; } MetaData BodyLength
-{
-uint8
-pack,zchar[ 1")).
-Eval vm_compute in ("<<<M1734>>>" ++ check (runes_of_ascii "
-packet
-	A	{
-	match  k
-	as
-    n{ 
-[	""a""
+    // c4
+`tab	here`
+    // c5
 ,
-""bb"",
-""c c""
-    ,
-    ""d"", ""e""  ,  ""f""  ,""g"" 
-, ""h""
-
-    ,
-""i""
-    ,
-""j""
-, ""k""
-	]
-: 
-B
-	,
-2 :  C }, 
+    // c6
 }
-
+    // c7
+options
+    // c8
+{
+    // c9
+BodyLength
+    // c10
+=
+    // c11
+""" ++ [233]%N ++ runes_of_ascii "t" ++ [233]%N ++ runes_of_ascii """
+    // c12
+;
+    // c13
+}
+    // c14
 ")).
-Eval vm_compute in ("<<<M1643>>>" ++ check (runes_of_ascii "MetaData o {
-    char[] i64_ `{ , }`,
-    u16 tag,
-    char[] lengthOf `u8 x,`,
-    Z9_ rootA `
-    `,
-    zchar[3] u,// " ++ [27880; 37322]%N ++ runes_of_ascii "
-    float T `{ , }`,
-}")).
-Eval vm_compute in ("<<<M1786>>>" ++ check (runes_of_ascii "packet A {
-    B b `a
-            b
-          c`,
-    B `a
-            b
-          c`,
-    repeat B bs `a
-            b
-          c`,
-}")).
-Eval vm_compute in ("<<<M1801>>>" ++ check (runes_of_ascii "
-
-  packet  Logon{
-    @tag(
-    42 ) 
-    // c
-  @rightPad
-( 
-' '
-) 
-@leftPad
-
-( )
-    repeat trueish
-{ string T,
+Eval vm_compute in ("<<<M1970>>>" ++ check (runes_of_ascii "packet	packetx { // trailing space 
+x_y_z
+{
+string
+charz ,
+string x// @lengthOf(
+`two words`
+    ,  u8x { // `tick` ""quote"" 'q'
+charz `100% of %d` // packet A { u8 x, }
+,}// " ++ [27880; 37322]%N ++ runes_of_ascii "
+,} , }
+    // a // b
+    packet metadata")).
+Eval vm_compute in ("<<<M4000>>>" ++ check (runes_of_ascii "packet repeatCount {
+    // packet A { u8 x, }
+    @leftPad('\x00')
+    repeat MetaDataX u8x `crlf
+    line`,
+    repeat char[] MetaDataX,
+    u64 uint8x @calculatedFrom(""a\""b"") `tab	here`,//
 }
 
-,
+MetaData pack {
+}")).
+Eval vm_compute in ("<<<M103>>>" ++ check (runes_of_ascii "// " ++ [27880; 37322]%N ++ runes_of_ascii "
+root packet i8i8	{
+Foo // 50% %s
+@calculatedFrom(	""a\\"")
+    `" ++ [28040; 24687; 31867; 22411]%N ++ runes_of_ascii "`,  } packet BodyLength {	@calculatedFrom( // trailing space 
+""" ++ [28040; 24687]%N ++ runes_of_ascii """ )
+@rightPad (	)	@tag(
+    42 // a // b
+) len `it's` ,  } 	 ")).
+Eval vm_compute in ("<<<M4552>>>" ++ check (runes_of_ascii "  options
+	{ }packet
+Packet {  char[] i64_
+    ,
+@tag(
+
+255	) match
+
+crc
+
+as i8i8
+	{
+""{,}"" :  trueish  """"
+
+:	Pad
+	,""a@x\\""
+
+    : Foo ,
+
+    1	:
+	packetx
+
+, """ ++ [128512]%N ++ runes_of_ascii """
+:
+trueish ,
+	}  ,
+
     }
+
 ")).
-Eval vm_compute in ("<<<M2041>>>" ++ check (runes_of_ascii "packet B {
+Eval vm_compute in ("<<<M4014>>>" ++ check (runes_of_ascii "
+options
+    { rootA
+=
+
+false
+    asx = 
+false //x
+  	;  BodyLength  =
+'0' }	MetaData  zchar 
+{ 
+i64_  /// triple
+
+_x
+`" ++ [233]%N ++ runes_of_ascii "` ,
+uint64
+
+    T
+
+    `{ , }`
+
+, 	 // packet A { u8 x, }
+  	}
+")).
+Eval vm_compute in ("<<<M1356>>>" ++ check (runes_of_ascii "
+packet // 50% %s
+Logon  { @lengthOf(
+a1 )
+match x_y_z
+    as asx { [	""packet""
+/// triple
+//x
+, // 50% %s
+""" ++ [128512]%N ++ runes_of_ascii """ ,""packet"" , 4294967296 , """ ++ [28040; 24687]%N ++ runes_of_ascii """
+] : A , 3
+:Packet , }	,	} // @lengthOf(")).
+Eval vm_compute in ("<<<M4179>>>" ++ check (runes_of_ascii "MetaData tag {
+    zchar[10] Header `it's`,
+    zchar[4294967296] roots,
+}
+
+/// triple
+packet x {
+    @tag(42)
+    uint8 crc,
+}
+
+MetaData i64_ {
+    zchar[1] roots `{ , }`,
+}")).
+Eval vm_compute in ("<<<M4405>>>" ++ check (runes_of_ascii "MetaData roots {
+    char[255] calculatedFrom,
+    i32 Foo `say ""hi""`,
+    Z9_ Logon,
+    // a // b
+    //
+    float64 msg_type,
+    zchar[007] lengthOf `two words`,
+}")).
+Eval vm_compute in ("<<<M1635>>>" ++ check (runes_of_ascii "options options { } packet Packet{char[] i64_ ,
+@tag(
+    255) match
+crc as i8i8{""{,}"" : trueish """" : Pad , ""a\\"" :
+Foo ,
+    1 :packetx
+, """ ++ [128512]%N ++ runes_of_ascii """ : trueish , } , }")).
+Eval vm_compute in ("<<<M2427>>>" ++ check (runes_of_ascii "
+packet MetaDataX
+{
+    @leftPad
+( // a // b
+packet
+) i8 u @lengthOf(
+MetaDataX
+    ) `say ""hi""` ,	} MetaData BodyLength {
+    asx
+x_y_z `" ++ [233]%N ++ runes_of_ascii "`
+, uint64 u128 , }
+")).
+Eval vm_compute in ("<<<M440>>>" ++ check (runes_of_ascii "MetaData rootA {
+char[]
+    /// triple
+    leftPad`crlf
+line`  , char[ 00	]
+packetx// a // b
+`" ++ [233]%N ++ runes_of_ascii "`, string
+a1 ,
+    char
+x ,string int , char
+A
+    `` ,
+}
+
+")).
+Eval vm_compute in ("<<<M2367>>>" ++ check (runes_of_ascii "
+packet {
+MetaDataX
+    @leftPad
+( // a // b
+'0'
+) i8 u @lengthOf(
+MetaDataX
+    ) `say ""hi""` ,	} MetaData BodyLength {
+    asx
+x_y_z `" ++ [233]%N ++ runes_of_ascii "`
+, uint64 u128 , }
+")).
+Eval vm_compute in ("<<<M1788>>>" ++ check (runes_of_ascii "options { } packet Packet{char[] i64_ ,
+@tag(
+    255) match
+crc as i8i8{""{,}"" : trueish """" : Pad , ""a\\"" :
+Foo ,
+    1 :packetx
+, , """ ++ [128512]%N ++ runes_of_ascii """ : trueish , } , }")).
+Eval vm_compute in ("<<<M1735>>>" ++ check (runes_of_ascii "options { } packet Packet{char[] i64_ ,
+@tag(
+    255) match
+crc as i8i8{""{,}"" : trueish i64 : Pad , ""a\\"" :
+Foo ,
+    1 :packetx
+, """ ++ [128512]%N ++ runes_of_ascii """ : trueish , } , }")).
+Eval vm_compute in ("<<<M1714>>>" ++ check (runes_of_ascii "options { } packet Packet{char[] i64_ ,
+@tag(
+    255) match
+crc as i8i8""{,}""{ : trueish """" : Pad , ""a\\"" :
+Foo ,
+    1 :packetx
+, """ ++ [128512]%N ++ runes_of_ascii """ : trueish , } , }")).
+Eval vm_compute in ("<<<M110>>>" ++ check (runes_of_ascii "packet
+    // `tick` ""quote"" 'q'
+    rootA { uint64
+repeatCount , @lengthOf(  u8x
+)@tag( 65535 ) //
+rootA
+    `{ , }` , string T ,zchar[ 3]zchar ,
+    }")).
+Eval vm_compute in ("<<<M4264>>>" ++ check (runes_of_ascii "  MetaData float
+
+    { uint8  BodyLength ,
+
+    }
+	MetaData
+charz
+
+{float32
+        // c
+trueish
+
+    `a\`
+,
+
+i16
+    metadata	`say ""hi""` ,
+}
+")).
+Eval vm_compute in ("<<<M3493>>>" ++ check (runes_of_ascii "packet A {
     u8 a,
 }
-
+packet B {
+    u16 b,
+}
 root packet P {
     u8 K,
-    u64 L @lengthOf(Body),
-    match K as Body {
-        1 : B,
+    match K as M {
+        [1, 2] : A,
+        3 : B,
+        7 : A,
+    },
+}
+")).
+Eval vm_compute in ("<<<M1662>>>" ++ check (runes_of_ascii "options { } packet Packet{ i64_ ,
+@tag(
+    255) match
+crc as i8i8{""{,}"" : trueish """" : Pad , ""a\\"" :
+Foo ,
+    1 :packetx
+, """ ++ [128512]%N ++ runes_of_ascii """ : trueish , } , }")).
+Eval vm_compute in ("<<<M4308>>>" ++ check (runes_of_ascii "packet A {
+    match k as n {
+        [
+            ""a"", ""bb"", 007, ""d"", ""e"",
+            66, ""g"", ""h"", 9
+        ] : B,
+        2 : C,
     },
 }")).
-Eval vm_compute in ("<<<M608>>>" ++ check (runes_of_ascii "MetaData
-    // trailing space 
-    matchKey
-{ u64 , // a // b
-chars char[] lengthOf `// not a comment`
-    , //	t
-}")).
-Eval vm_compute in ("<<<M905>>>" ++ check (runes_of_ascii "packet A {
-  match k as n {
-    [""a"", ""bb"", ""c c"", ""d"", ""e"", ""f"", ""g"", ""h"", ""i"", ""j"", ""k"", ""l""] : B,
-    2 : C
-  },
-}")).
-Eval vm_compute in ("<<<M601>>>" ++ check (runes_of_ascii "MetaData
-    // trailing space 
-    matchKey
-{  chars // a // b
-,char[] lengthOf `// not a comment`
-    , //	t
-}")).
-Eval vm_compute in ("<<<M587>>>" ++ check (runes_of_ascii "
-    // trailing space 
-    matchKey
-{ u64 chars // a // b
-,char[] lengthOf `// not a comment`
-    , //	t
-}")).
-Eval vm_compute in ("<<<M629>>>" ++ check (runes_of_ascii "MetaData
-    // trailing space 
-    matchKey
-{ u64 chars // a // b
-,char[] lengthOf string
-    , //	t
-}")).
-Eval vm_compute in ("<<<M1267>>>" ++ check (runes_of_ascii "packet calculatedFrom { @tag( 4294967296 ) u msg_type // c
-, char[ 3 ] crc @lengthOf( len ) `u8 x,` , }")).
-Eval vm_compute in ("<<<M62>>>" ++ check (runes_of_ascii "
-options{metadata
-    =
-// @lengthOf(
-// @lengthOf(
-""a	b"" u = 0
-; // trailing space 
-i8i8 = 0
-;	} 	 ")).
-Eval vm_compute in ("<<<M1099>>>" ++ check (runes_of_ascii "// top
-MetaData // c0
-zchar // c1
-{ // c2
-zchar[ // c3
-3 // c4
-] // c5
-Pad // c6
-, // c7
-} // c8
+Eval vm_compute in ("<<<M3460>>>" ++ check (runes_of_ascii "  packet
+B { u8
+    a 
+,  } root
+packet
+
+    P{ u8
+	K, match
+
+    K as Body
+    {
+
+    1 :	B 
+,
+}
+    ,
+
+u16 L@lengthOf(
+
+Body ), }
 ")).
-Eval vm_compute in ("<<<M1145>>>" ++ check (runes_of_ascii "packet Logon { @tag( 42 ) @rightPad (
+Eval vm_compute in ("<<<M598>>>" ++ check (runes_of_ascii "//	t
+MetaData As{ char[  3] x // @lengthOf(
+`
+`, trueish Packet ,float64
+u8x
+    , i8
+x_y_z// c
+,
+falsey Logon// c
+,  uint64	x, } 	 ")).
+Eval vm_compute in ("<<<M4245>>>" ++ check (runes_of_ascii "packet A {
+    match k as n {
+        [
+            1, ""bb"", 007, ""d"", 5,
+            ""f"", 7
+        ] : B,
+        2 : C,
+    },
+}")).
+Eval vm_compute in ("<<<M531>>>" ++ check (runes_of_ascii "//	t
+MetaData rootA{
+Header	int	, string_ asx //
+, string roots //	t
+, string	lengthOf, char[
+    3 ] Z9_ , o metadata
+, }")).
+Eval vm_compute in ("<<<M3283>>>" ++ check (runes_of_ascii "MetaData metadata { } MetaData rootA { i8 i64_ , roots
 // c
-' ' ) @leftPad ( ) repeat trueish { string T , } , }")).
-Eval vm_compute in ("<<<M202>>>" ++ check (runes_of_ascii "
-options {
-roots //x
-=""packet"" ; len  =0 ;crc  =zchar[65535
+options1 `a\` , lengthOf Header , Z9_ Foo , int16 BodyLength , }")).
+Eval vm_compute in ("<<<M1786>>>" ++ check (runes_of_ascii "options { } packet Packet{char[] i64_ ,
+@tag(
+    255) match
+crc as i8i8{""{,}"" : trueish """" : Pad , ""a\\"" :
+Foo ,
+    1 :")).
+Eval vm_compute in ("<<<M4528>>>" ++ check (runes_of_ascii "options {
+    chars = false
+    MetaDataX = 42;
+    BodyLength = zchar[3];
+}
+
+MetaData Foo {
+    stringy int `doc`,
+}")).
+Eval vm_compute in ("<<<M1188>>>" ++ check (runes_of_ascii "options	{
+// " ++ [27880; 37322]%N ++ runes_of_ascii "
 /// triple
-// " ++ [128512]%N ++ runes_of_ascii " emoji
-]//x
+u = 0123456789 ; roots= zchar[ 10	]MetaDataX = 255 _x = '\x00' i64_
+    =
+false ; } 	 ")).
+Eval vm_compute in ("<<<M3322>>>" ++ check (runes_of_ascii "MetaData float { // c
+uint8 BodyLength , } MetaData charz { float32 trueish `a\` , i16 metadata `say ""hi""` , }")).
+Eval vm_compute in ("<<<M3479>>>" ++ check (runes_of_ascii "// top
+root // c0
+packet
+    // c1
+P // c2
+{ // c3
+string
+    // c4
+s
+    // c5
+,
+    // c6
+} // c7a
+  // c7b
+")).
+Eval vm_compute in ("<<<M248>>>" ++ check (runes_of_ascii "options{A
+    = true  ;}
+    packet	len {zchar[7 ] Foo//	t
+@lengthOf( BodyLength )
+    ,
+zchar[ 10 ] int,}")).
+Eval vm_compute in ("<<<M4087>>>" ++ check (runes_of_ascii "MetaData 
+_x
+    { f64
+    // c
+	charz 
+`tab	here`
+
+    ,
+    } options
+
+{
+
+BodyLength= """ ++ [233]%N ++ runes_of_ascii "t" ++ [233]%N ++ runes_of_ascii """
+
 ;
 }
 ")).
-Eval vm_compute in ("<<<M1956>>>" ++ check (runes_of_ascii "packet A {
-    Inner {
-        match k as n {
-            [1, 22] : B,
-        },
-    },
-}")).
-Eval vm_compute in ("<<<M1737>>>" ++ check (runes_of_ascii "
-// c
-MetaData
-_x  {  zchar[
-4294967296 ]  lengthOf`// not a comment`
+Eval vm_compute in ("<<<M4126>>>" ++ check (runes_of_ascii "// " ++ [27880; 37322]%N ++ runes_of_ascii "
+options {
+}
 
-    , 
-} ")).
-Eval vm_compute in ("<<<M1207>>>" ++ check (runes_of_ascii "
-// c
-packet o { @tag( 42 ) repeat x { char[ 0123456789 ] i64_ , } , } options { }")).
-Eval vm_compute in ("<<<M1228>>>" ++ check (runes_of_ascii "packet o { @tag( 42 ) repeat x { char[ 0123456789 // c
-] i64_ , } , } options { }")).
-Eval vm_compute in ("<<<M1794>>>" ++ check (runes_of_ascii "packet
-    matchKey {@tag(
-7 
-)@leftPad
-    //x
-  	(
-'\x00' 
-)  string_
-,	}
-")).
-Eval vm_compute in ("<<<M40>>>" ++ check (runes_of_ascii "  root
-    packet falsey
-{}
-/// triple
-// " ++ [27880; 37322]%N ++ runes_of_ascii "
-options {}
-// trailing space 
-")).
-Eval vm_compute in ("<<<M788>>>" ++ check (runes_of_ascii "packet A {
+packet Foo {
+    match charz as body {
+        4294967296 : int,
+    },// 50% %s
+}")).
+Eval vm_compute in ("<<<M2989>>>" ++ check (runes_of_ascii "packet A {
   match k as n {
-    [""a"", ""bb"", ""c c""] : B,
+    [1, ""bb"", 007, ""d"", 5, ""f"", 7, ""h"", 9, ""j""] : B,
     2 : C
   },
 }")).
-Eval vm_compute in ("<<<M1310>>>" ++ check (runes_of_ascii "MetaData
-// c
-_x { zchar[ 4294967296 ] lengthOf `// not a comment` , }")).
-Eval vm_compute in ("<<<M15>>>" ++ check (runes_of_ascii "options
-    { Z9_
-    =
-""" ++ [233]%N ++ runes_of_ascii "t" ++ [233]%N ++ runes_of_ascii """; rootA = string; } // trailing space ")).
-Eval vm_compute in ("<<<M1524>>>" ++ check (runes_of_ascii "// top
-MetaData zchar {
-    // c2
-    zchar[3] Pad,// c7
-}// c8")).
-Eval vm_compute in ("<<<M1495>>>" ++ check (runes_of_ascii "root packet P {
-    repeat string ss,
-    repeat u16 ns,
+Eval vm_compute in ("<<<M3739>>>" ++ check (runes_of_ascii "packet A {
+    Inner {
+        match k as n {
+            [1, 22, 007] : B,
+        },
+    },
 }")).
-Eval vm_compute in ("<<<M962>>>" ++ check (runes_of_ascii "MetaData M {
-    u8 x `tab
-	x`,
-    T t `tab
-	x`,
-}")).
-Eval vm_compute in ("<<<M964>>>" ++ check (runes_of_ascii "options {
-    a = ""x\
-y"";
-    b = ""x\
-y""
-}")).
-Eval vm_compute in ("<<<M1329>>>" ++ check (runes_of_ascii "root packet P {
-    char c,
-    u8 x,
+Eval vm_compute in ("<<<M4358>>>" ++ check (runes_of_ascii "
+packet As {
+	calculatedFrom  @lengthOf(
+
+MetaDataX
+	) `100% of %d`
+        // " ++ [27880; 37322]%N ++ runes_of_ascii "
+	  , 
 }
+
 ")).
-Eval vm_compute in ("<<<M1091>>>" ++ check (runes_of_ascii "root // a
- packet // b
- A // c
- { }")).
-Eval vm_compute in ("<<<M51>>>" ++ check (runes_of_ascii "options
-{ string_ = //	t
-007 }
+Eval vm_compute in ("<<<M2272>>>" ++ check (runes_of_ascii "MetaData _x {string x `// not a comment` , string
+i64_ // trailing space 
+`a\` ,
+    @ }
 ")).
-Eval vm_compute in ("<<<M1903>>>" ++ check (runes_of_ascii "options {
-    zchar = false;
-}")).
-Eval vm_compute in ("<<<M1196>>>" ++ check (runes_of_ascii "options { u8x = 3 }
-// c
+Eval vm_compute in ("<<<M3445>>>" ++ check (runes_of_ascii "
+packet Inner {
+    u8
+
+a ,  }root packet
+
+    P  {
+    Inner
+ref_obj ,
+
+    u8
+x
+,}")).
+Eval vm_compute in ("<<<M2264>>>" ++ check (runes_of_ascii "MetaData _x {string x `// not a comment` , string
+i64_ // trailing space 
+`a\` ,
+    
 ")).
-Eval vm_compute in ("<<<M23>>>" ++ check (runes_of_ascii "packet BodyLength { }
-")).
-Eval vm_compute in ("<<<M742>>>" ++ check (runes_of_ascii "@tag( repeat int32")).
-Eval vm_compute in ("<<<M1051>>>" ++ check (runes_of_ascii "// c" ++ [65279]%N ++ runes_of_ascii "
-packet A {
-}")).
-Eval vm_compute in ("<<<M184>>>" ++ check (runes_of_ascii "packet As
+Eval vm_compute in ("<<<M3906>>>" ++ check (runes_of_ascii "
+packet
+    A	{
+match k
+as 
+n 
 {
+
+[// a
+
+  1// b
+    ,  // c
+    2  ]// d
+:
+B },
 }
 ")).
-Eval vm_compute in ("<<<M745>>>" ++ check (runes_of_ascii "9UiK!(")).
-Eval vm_compute in ("<<<M18>>>" ++ check (runes_of_ascii "
+Eval vm_compute in ("<<<M4388>>>" ++ check (runes_of_ascii "MetaData _x {
+    f64 charz `tab	here`,
+}
+
+// c
+options {
+    BodyLength = """ ++ [233]%N ++ runes_of_ascii "t" ++ [233]%N ++ runes_of_ascii """;
+}")).
+Eval vm_compute in ("<<<M4184>>>" ++ check (runes_of_ascii "packet A {
+    B b `
+        `,
+    B `
+        `,
+    repeat B bs `
+        `,
+}")).
+Eval vm_compute in ("<<<M3097>>>" ++ check (runes_of_ascii "packet A {
+    u32 crc @calculatedFrom(""\
+""),
+    @calculatedFrom(""\
+"") u8 y,
+}")).
+Eval vm_compute in ("<<<M731>>>" ++ check (runes_of_ascii "root packet
+A {	@leftPad
+( '0' ) zchar[  3 // @lengthOf(
+] As
+, A asx , }
 ")).
+Eval vm_compute in ("<<<M3387>>>" ++ check (runes_of_ascii "MetaData _x { f64 charz `tab	here` , } options { BodyLength =
+// c
+""" ++ [233]%N ++ runes_of_ascii "t" ++ [233]%N ++ runes_of_ascii """ ; }")).
+Eval vm_compute in ("<<<M2815>>>" ++ check (runes_of_ascii "u32 } uint32 float64 } BodyLength ; float32 false char[] uint8 match true")).
+Eval vm_compute in ("<<<M1900>>>" ++ check (runes_of_ascii "packet	packetx { // trailing space 
+x_y_z
+{
+string
+charz ,
+string x")).
+Eval vm_compute in ("<<<M3400>>>" ++ check (runes_of_ascii "// c
+packet o { @tag( 4294967296 ) options1 @lengthOf( u8x ) `" ++ [233]%N ++ runes_of_ascii "` , }")).
+Eval vm_compute in ("<<<M1136>>>" ++ check (runes_of_ascii "options {  i8i8
+    =  '\x00'
+; As =
+""" ++ [28040; 24687]%N ++ runes_of_ascii """
+; f32a
+    = false
+; }
+")).
+Eval vm_compute in ("<<<M4391>>>" ++ check (runes_of_ascii "root packet P {
+    u16 a,
+    u32 Sum @calculatedFrom(""CRC32""),
+}")).
+Eval vm_compute in ("<<<M2891>>>" ++ check (runes_of_ascii "packet A {
+  match k as n {
+    [""a"", 22] : B,
+    2 : C
+  },
+}")).
+Eval vm_compute in ("<<<M2419>>>" ++ check (runes_of_ascii "
+packet MetaDataX
+{
+    @leftPad
+( // a // b
+'0'
+) i8 u @le")).
+Eval vm_compute in ("<<<M263>>>" ++ check (runes_of_ascii "
+packet metadata{ repeat f64 repeatCount `tab	here`
+, }
+
+")).
+Eval vm_compute in ("<<<M3686>>>" ++ check (runes_of_ascii "
+
+  packet chars
+{  uint16	packetx
+
+    `" ++ [28040; 24687; 31867; 22411]%N ++ runes_of_ascii "`
+	, 
+}")).
+Eval vm_compute in ("<<<M4383>>>" ++ check (runes_of_ascii "options {
+    msg_type = false
+    Foo = zchar[42];
+}")).
+Eval vm_compute in ("<<<M2324>>>" ++ check (runes_of_ascii "
+MetaData Pad{
+u32 rootA `line1
+line2` ,
+    } }
+")).
+Eval vm_compute in ("<<<M3088>>>" ++ check (runes_of_ascii "MetaData M {
+    u8 x `%%d%!`,
+    T t `%%d%!`,
+}")).
+Eval vm_compute in ("<<<M3034>>>" ++ check (runes_of_ascii "MetaData M {
+    u8 x `a
+b`,
+    T t `a
+b`,
+}")).
+Eval vm_compute in ("<<<M74>>>" ++ check (runes_of_ascii "packet
+// trailing space 
+/// triple
+Z9_{ }
+")).
+Eval vm_compute in ("<<<M4078>>>" ++ check (runes_of_ascii "  packet  A 
+{
+
+u8
+    x `d" ++ [8287]%N ++ runes_of_ascii "` 
+, // c" ++ [8287]%N ++ runes_of_ascii "
+  } ")).
+Eval vm_compute in ("<<<M185>>>" ++ check (runes_of_ascii "packet chars{uint16 packetx `" ++ [28040; 24687; 31867; 22411]%N ++ runes_of_ascii "` , }
+
+")).
+Eval vm_compute in ("<<<M2322>>>" ++ check (runes_of_ascii "
+MetaData Pad{
+u32 rootA `line1
+line2`")).
+Eval vm_compute in ("<<<M2634>>>" ++ check (runes_of_ascii "packet A { match as as n { 1 : B }, }")).
+Eval vm_compute in ("<<<M1081>>>" ++ check (runes_of_ascii "options {
+    trueish
+    =
+uint8
+}")).
+Eval vm_compute in ("<<<M3035>>>" ++ check (runes_of_ascii "root packet A {
+    u8 x `a
+b`,
+}")).
+Eval vm_compute in ("<<<M1045>>>" ++ check (runes_of_ascii "// " ++ [128512]%N ++ runes_of_ascii " emoji
+options
+{ // a // b
+}")).
+Eval vm_compute in ("<<<M3111>>>" ++ check (runes_of_ascii "packet A {
+ u8 x `d" ++ [12288]%N ++ runes_of_ascii "`, // c" ++ [12288]%N ++ runes_of_ascii "
+}")).
+Eval vm_compute in ("<<<M869>>>" ++ check (runes_of_ascii "options
+    //
+    { } // " ++ [27880; 37322]%N)).
+Eval vm_compute in ("<<<M4013>>>" ++ check (runes_of_ascii "
+
+  // packet A { u8 x, }
+")).
+Eval vm_compute in ("<<<M2617>>>" ++ check (runes_of_ascii "packet A { B { u8 x, }, }")).
+Eval vm_compute in ("<<<M229>>>" ++ check (runes_of_ascii "
+// packet A { u8 x, }
+")).
+Eval vm_compute in ("<<<M2238>>>" ++ check (runes_of_ascii "MetaData _x {string x")).
+Eval vm_compute in ("<<<M776>>>" ++ check (runes_of_ascii " // trailing space ")).
+Eval vm_compute in ("<<<M2773>>>" ++ check (runes_of_ascii "]`?64AeqoR#AP)3/TW")).
+Eval vm_compute in ("<<<M3184>>>" ++ check (runes_of_ascii "packet A {
+}
+// c" ++ [6158]%N)).
+Eval vm_compute in ("<<<M3127>>>" ++ check (runes_of_ascii "packet A {
+}// c" ++ [8192]%N)).
+Eval vm_compute in ("<<<M305>>>" ++ check (runes_of_ascii "packet Foo { }
+")).
+Eval vm_compute in ("<<<M1077>>>" ++ check (runes_of_ascii "/// triple
+
+
+")).
+Eval vm_compute in ("<<<M2331>>>" ++ check (runes_of_ascii "
+MetaData P")).
+Eval vm_compute in ("<<<M2192>>>" ++ check (runes_of_ascii "packet//")).
+Eval vm_compute in ("<<<M2760>>>" ++ check ([65533]%N ++ runes_of_ascii "T" ++ [65533]%N ++ runes_of_ascii """" ++ [65533]%N ++ runes_of_ascii "8T")).
+Eval vm_compute in ("<<<M2450>>>" ++ check (runes_of_ascii "char_")).
+Eval vm_compute in ("<<<M3163>>>" ++ check (runes_of_ascii "// c" ++ [12]%N)).
+Eval vm_compute in ("<<<M3783>>>" ++ check (runes_of_ascii "
+//
+")).
+Eval vm_compute in ("<<<M2692>>>" ++ check (runes_of_ascii "{ }")).
+Eval vm_compute in ("<<<M2463>>>" ++ check (runes_of_ascii "u")).
